@@ -197,11 +197,11 @@ Qed.
 (* the block is not a data block of the chain *)
 Definition blk_apart (v : vol) (blk : N) (ch : list N) : Prop := ~ In blk (data_blocks v ch).
 
-(* the effect of flush_file through a record with entry e on the rest of the state: the tables
-   are untouched, the device still works, and only the block of the slot and - FAT32 - the
-   information sector may differ *)
+(* the effect of flush_file through a record with entry e on the rest of the state (and of
+   any other rewrite of the directory slot of e): the tables are untouched, the device still
+   works, and only the block of the slot and - FAT32 - the information sector may differ *)
 Definition flush_eff (v : vol) (e : dirent) (s s' : st) : Prop :=
-  same_mgr s s' /\ no_faults s' /\ cache_ok s' /\ blocks_wf (s_disk s') /\
+  same_tables s s' /\ no_faults s' /\ cache_ok s' /\ blocks_wf (s_disk s') /\
   forall j, j <> e_block e -> (v_fat32 v = true -> j <> v_info v) ->
             disk_get (s_disk s') j = disk_get (s_disk s) j.
 
@@ -247,14 +247,16 @@ Section Flush.
     destruct Hpre as ((Hnf & Hc & Hvi & _) & _ & _).
     destruct (f_dirty f) eqn:Hd.
     2:{ exists s. split; [exact (flush_file_clean s h fi f Hres Hd)|].
-        split; [apply same_mgr_refl|]. repeat (split; [assumption|]). intros j _ _. reflexivity. }
+        split; [exact (proj1 (same_mgr_tables _ _ (same_mgr_refl s)))|].
+        repeat (split; [assumption|]). intros j _ _. reflexivity. }
     destruct (info_step_exists s vi v Hnf Hc Hvi Hwf) as (s1 & Hinfo & Hwf1).
     assert (Hnp : e_size (f_entry f) = 0 \/ e_cluster (f_entry f) <> 0).
     { destruct Hchain as [(A1 & _)|(_ & -> & _)]; [right; clear - A1; lia|left].
       cbn [length] in Hsize. clear - Hsize. lia. }
     destruct (flush_file_spec s h fi f vi v s1 Hres Hd (conj Hvol Hvi) Hinfo Hnp Hct Hmt Hoff)
       as (s' & Hrun & Hd' & _ & Hfr & Hc' & Hnf' & Hm' & _).
-    exists s'. split; [exact Hrun|]. split; [exact Hm'|]. split; [exact Hnf'|]. split; [exact Hc'|].
+    exists s'. split; [exact Hrun|]. split; [exact (proj1 (same_mgr_tables _ _ Hm'))|].
+    split; [exact Hnf'|]. split; [exact Hc'|].
     split.
     - intros i. destruct (N.eq_dec i (e_block (f_entry f))) as [->|Hne].
       + rewrite Hd', disk_get_set_same. unfold put_entry. rewrite set_bytes_length; [apply Hwf1|].
@@ -276,7 +278,7 @@ Section Flush.
     intros R (Hm & Hnf' & Hc' & Hwf' & Hfr) Hnfat Hinfo Hapart.
     pose proof (file_rep_chain_range fsz _ _ _ _ _ _ _ _ _ R) as Hrange.
     pose proof R as [(R1 & R2 & R3) _ _ _ _ _ _ _ _ _ _ _ _].
-    destruct Hm as (M1 & _ & M3 & _ & _ & M6 & _).
+    destruct Hm as (M1 & _ & M3 & _ & M6 & _).
     apply (file_rep_move fsz w2 h2 s s' af2 fi2 f2 vi v ch2 fi2 R); try assumption; try congruence.
     - intros fu _ H. rewrite <- H. apply chain_of_ext. intros j Hj. apply Hfr.
       + intros ->. contradiction.
@@ -310,3 +312,1577 @@ Section Flush.
     exact (Hapart _ Hin).
   Qed.
 End Flush.
+
+(* ================================================================== 3. close *)
+(* SPEC side: the member with handle h leaves the set *)
+Definition remove_member (h : N) (m : list member) : list member :=
+  filter (fun x => negb (m_handle x =? h)) m.
+
+(* the re-indexing that swap_remove at index fi performs on the file table: the record that was
+   last moves to position fi; and the representations that remain *)
+Definition reidx (fi last : nat) (r : frep) : frep :=
+  (if Nat.eqb (fst (fst r)) last then fi else fst (fst r), snd (fst r), snd r).
+Definition remove_rep (h : N) (fi last : nat) (rs : list frep) : list frep :=
+  map (reidx fi last) (filter (fun r => negb (f_id (snd (fst r)) =? h)) rs).
+
+Lemma r_chain_reidx fi last r : r_chain (reidx fi last r) = r_chain r.
+Proof. reflexivity. Qed.
+
+Lemma Forall2_map_r {A B C} (R : A -> C -> Prop) (g : B -> C) l1 l2 :
+  Forall2 (fun a b => R a (g b)) l1 l2 -> Forall2 R l1 (map g l2).
+Proof. induction 1; cbn [map]; constructor; assumption. Qed.
+
+Lemma NoDup_map_filter {A} (g : A -> N) (q : A -> bool) l : NoDup (map g l) -> NoDup (map g (filter q l)).
+Proof.
+  induction l as [|x t IH]; intros H; [constructor|]. cbn [map] in H. inversion H as [|? ? Hn Ht]; subst.
+  cbn [filter]. destruct (q x); [|exact (IH Ht)]. cbn [map]. constructor; [|exact (IH Ht)].
+  intros Hin. apply Hn. apply in_map_iff in Hin. destruct Hin as (y & Ey & Hy).
+  apply filter_In in Hy. rewrite <- Ey. apply in_map. exact (proj1 Hy).
+Qed.
+
+Lemma remove_member_handles h m : NoDup (map m_handle m) ->
+  NoDup (map m_handle (remove_member h m)) /\ ~ In h (map m_handle (remove_member h m)) /\
+  (forall x, In x (remove_member h m) <-> In x m /\ m_handle x <> h).
+Proof.
+  intros Hnd. split; [apply NoDup_map_filter; exact Hnd|]. split.
+  - intros Hin. apply in_map_iff in Hin. destruct Hin as (x & Ex & Hx).
+    apply filter_In in Hx. destruct Hx as [_ Hx]. rewrite Ex, N.eqb_refl in Hx. discriminate Hx.
+  - intros x. unfold remove_member. rewrite filter_In. split; intros [H1 H2]; (split; [exact H1|]).
+    + intros E. rewrite E, N.eqb_refl in H2. discriminate H2.
+    + destruct (N.eqb_spec (m_handle x) h); [contradiction|reflexivity].
+Qed.
+
+Section Close.
+  Variable fsz : N.
+
+  (* removing the record of member h from the file table: the other members keep their
+     representations, re-indexed *)
+  Lemma files_rep_remove s vi v m rs i0 h w af fi f ch :
+    files_rep fsz s vi v m rs -> nth_error m i0 = Some (h, w, af) -> nth_error rs i0 = Some (fi, f, ch) ->
+    NoDup (map f_id (s_files s)) ->
+    files_rep fsz (set_s_files s (swap_remove (s_files s) fi)) vi v (remove_member h m)
+              (remove_rep h fi (length (s_files s) - 1) rs).
+  Proof.
+    intros (F & Hdisj & Hnd) Hi0 Hr0 Hndf.
+    destruct (Forall2_nth_l _ _ _ F i0 _ Hi0) as (r0 & Hr0' & R0). rewrite Hr0 in Hr0'. injection Hr0' as <-.
+    unfold member_rep in R0. cbn [m_wr m_handle m_af r_chain fst snd] in R0.
+    pose proof (fr_res _ _ _ _ _ _ _ _ _ _ R0) as Q0. pose proof (resolves_id _ _ _ _ Q0) as Eid0.
+    destruct Q0 as (Hl & _ & Hfi).
+    assert (Hfilt : (fi < length (s_files s))%nat) by (apply nth_error_Some; congruence).
+    set (last := (length (s_files s) - 1)%nat).
+    set (s'' := set_s_files s (swap_remove (s_files s) fi)).
+    assert (Hnd'' : NoDup (map f_id (s_files s''))) by (apply PrHandles.swap_remove_NoDup_map; exact Hndf).
+    split; [|split].
+    - unfold remove_member, remove_rep. apply Forall2_map_r.
+      assert (Hkey : forall x r, member_rep fsz s vi v x r ->
+                negb (m_handle x =? h) = negb (f_id (snd (fst r)) =? h)).
+      { intros x r Rx. rewrite (resolves_id _ _ _ _ (fr_res _ _ _ _ _ _ _ _ _ _ Rx)). reflexivity. }
+      apply (Forall2_impl_in _ _ _ _ (Forall2_filter _ _ _ _ _ F Hkey)).
+      intros [[h2 w2] af2] [[fi2 f2] ch2] Hx _ R2. apply filter_In in Hx. destruct Hx as [_ Hx].
+      unfold member_rep, reidx in *. cbn [m_wr m_handle m_af r_chain fst snd] in *.
+      apply negb_true_iff, N.eqb_neq in Hx.
+      pose proof (fr_res _ _ _ _ _ _ _ _ _ _ R2) as Q2. pose proof (resolves_id _ _ _ _ Q2) as Eid2.
+      destruct Q2 as (_ & _ & Hfi2).
+      assert (Hne : fi2 <> fi) by (intros ->; rewrite Hfi in Hfi2; congruence).
+      assert (Hfi2lt : (fi2 < length (s_files s))%nat) by (apply nth_error_Some; congruence).
+      set (fi2' := if Nat.eqb fi2 last then fi else fi2).
+      assert (Hnth : nth_error (s_files s'') fi2' = Some f2).
+      { unfold s''. cbn [s_files set_s_files]. rewrite PrHandles.swap_remove_nth.
+        - unfold fi2'. destruct (Nat.eqb_spec fi2 last) as [E|E].
+          + rewrite Nat.eqb_refl. fold last. rewrite <- E. exact Hfi2.
+          + destruct (Nat.eqb_spec fi2 fi); [contradiction|exact Hfi2].
+        - exact Hfilt.
+        - unfold fi2'. fold last. destruct (Nat.eqb_spec fi2 last); unfold last in *; lia. }
+      pose proof (fr_pre _ _ _ _ _ _ _ _ _ _ R2) as ((Hnf & Hc & _) & _).
+      apply (file_rep_move fsz w2 h2 s s'' af2 fi2 f2 vi v ch2 fi2' R2); try assumption; try reflexivity.
+      + rewrite <- Eid2. rewrite (find_idx_unique f_id _ fi2' 0 f2 Hnd'' Hnth). reflexivity.
+      + exact (fr_wf _ _ _ _ _ _ _ _ _ _ R2).
+      + intros fu _ H. exact H.
+    - apply (fop_pairwise (fun a b => disjoint (r_chain a) (r_chain b))).
+      { intros a b. apply disjoint_sym. }
+      unfold remove_rep. apply fop_map; [intros a b H; exact H|]. apply fop_filter.
+      apply pairwise_fop. exact Hdisj.
+    - apply NoDup_map_filter. exact Hnd.
+  Qed.
+
+  (* 2. C01, close: on the representation.  close = flush, then the record leaves the table:
+     Ok; the closed member leaves the set; every other member keeps its abstract state, its
+     representation re-indexed as swap_remove dictates *)
+  Theorem C01_close_removes_rep s vi v m rs i0 h w af fi f ch :
+    files_rep fsz s vi v m rs -> nth_error m i0 = Some (h, w, af) -> nth_error rs i0 = Some (fi, f, ch) ->
+    slot_ok v (f_entry f) -> info_ok v ->
+    (forall r, In r rs -> blk_apart v (e_block (f_entry f)) (r_chain r)) ->
+    NoDup (map f_id (s_files s)) ->
+    exists s1 s', run_op (CloseFile h) s = (Ok RUnit, s') /\ flush_file h s = (Ok tt, s1) /\
+      flush_eff v (f_entry f) s s1 /\
+      s' = set_s_files s1 (swap_remove (s_files s1) fi) /\
+      files_rep fsz s' vi v (remove_member h m) (remove_rep h fi (length (s_files s) - 1) rs).
+  Proof.
+    intros FR Hi0 Hr0 Hslot Hinfo Hapart Hndf.
+    pose proof FR as (F & _ & _).
+    destruct (Forall2_nth_l _ _ _ F i0 _ Hi0) as (r0 & Hr0' & R0). rewrite Hr0 in Hr0'. injection Hr0' as <-.
+    unfold member_rep in R0. cbn [m_wr m_handle m_af r_chain fst snd] in R0.
+    destruct (flush_run fsz w h s af fi f vi v ch R0 Hslot) as (s1 & Hrun & Heff).
+    destruct (C01_flush_keeps_rep fsz s vi v m rs i0 h w af fi f ch FR Hi0 Hr0 Hslot Hinfo Hapart)
+      as (s1' & Hrun' & _ & FR1).
+    unfold run_op in Hrun'. cbn [step] in Hrun'. rewrite (lift_ok' _ _ _ _ _ Hrun) in Hrun'.
+    injection Hrun' as <-.
+    pose proof Heff as (Hm & _).
+    exists s1, (set_s_files s1 (swap_remove (s_files s1) fi)).
+    split.
+    { unfold run_op. cbn [step]. apply (lift_ok' (fun _ : unit => RUnit) (close_file h) s tt).
+      destruct (fr_res _ _ _ _ _ _ _ _ _ _ R0) as (Hl & Hf & _).
+      destruct Hm as (_ & _ & Hfiles & _ & Hlock & _).
+      unfold close_file. rewrite (bind_ok _ _ _ _ _ (try_ok _ _ _ _ Hrun)).
+      rewrite <- Hfiles in Hf.
+      unfold locked, get_file_by_id, bind, get, modify, ret. rewrite Hlock, Hl, Hf. reflexivity. }
+    split; [exact Hrun|]. split; [exact Heff|]. split; [reflexivity|].
+    destruct Hm as (_ & _ & M3 & _).
+    rewrite <- M3.
+    apply (files_rep_remove s1 vi v m rs i0 h w af fi f ch FR1 Hi0 Hr0). rewrite M3. exact Hndf.
+  Qed.
+End Close.
+
+(* ================================================================== 4. where directory slots live *)
+(* "directory chains and file chains are disjoint": block blk is no data block at all (the root
+   region of a FAT16 volume), or it is a block of a cluster c0 - of a directory - and the chain
+   from c0 on shares no cluster with the chain of any member *)
+Definition blk_home (s : st) (v : vol) (rs : list frep) (blk : N) : Prop :=
+  (forall c, 2 <= c -> ~ In blk (cluster_blocks v c)) \/
+  (exists c0 fu dch, In blk (cluster_blocks v c0) /\ chain_of (s_disk s) v c0 fu = Some dch /\
+                     forall r, In r rs -> disjoint dch (r_chain r)).
+
+(* ... hence blk is not a data block of any member's chain: slot_apart *)
+Lemma blk_home_apart s v rs blk : blk_home s v rs blk ->
+  forall r, In r rs -> Forall (fun x => 2 <= x /\ x < v_clusters v + 2) (r_chain r) ->
+  blk_apart v blk (r_chain r).
+Proof.
+  intros Hhome r Hr Hrange Hin. unfold data_blocks in Hin. apply in_flat_map in Hin.
+  destruct Hin as (c & Hc & Hin). rewrite Forall_forall in Hrange. pose proof (proj1 (Hrange c Hc)) as Hc2.
+  destruct Hhome as [H|(c0 & fu & dch & Hb & Hch & Hdis)]; [exact (H c Hc2 Hin)|].
+  destruct (chain_of_head _ _ _ _ _ Hch) as (H2 & _ & l' & ->).
+  destruct (N.eq_dec c0 c) as [->|Hne].
+  - exact (Hdis r Hr c (or_introl eq_refl) Hc).
+  - exact (cluster_blocks_apart v c0 c blk blk Hne H2 Hc2 Hb Hin eq_refl).
+Qed.
+
+(* the cluster that holds a block, and the chain from it, are unique *)
+Lemma blk_cluster_unique d v blk c1 c2 f1 f2 l1 l2 :
+  In blk (cluster_blocks v c1) -> In blk (cluster_blocks v c2) ->
+  chain_of d v c1 f1 = Some l1 -> chain_of d v c2 f2 = Some l2 -> c1 = c2 /\ l1 = l2.
+Proof.
+  intros B1 B2 H1 H2.
+  destruct (chain_of_head _ _ _ _ _ H1) as (A1 & _). destruct (chain_of_head _ _ _ _ _ H2) as (A2 & _).
+  destruct (N.eq_dec c1 c2) as [->|Hne].
+  - split; [reflexivity|exact (chain_of_det _ _ _ _ _ _ _ H1 H2)].
+  - exfalso. exact (cluster_blocks_apart v c1 c2 blk blk Hne A1 A2 B1 B2 eq_refl).
+Qed.
+
+(* the chain from a cluster of a chain is a part of that chain *)
+Lemma chain_of_suffix d v : forall l c f c0, chain_of d v c f = Some l -> In c0 l ->
+  exists f' l', chain_of d v c0 f' = Some l' /\ incl l' l.
+Proof.
+  induction l as [|a rest IH]; intros c f c0 H Hin; [destruct Hin|].
+  destruct (chain_of_head _ _ _ _ _ H) as (_ & _ & l' & E). injection E as -> ->.
+  destruct Hin as [<-|Hin].
+  - exists f, (c :: l'). split; [exact H|apply incl_refl].
+  - destruct (PrChain.chain_step _ _ _ _ _ H) as (_ & _ & Hst).
+    destruct l' as [|n tl]; [destruct Hin|]. destruct Hst as (_ & _ & _ & _ & f' & Hn).
+    destruct (IH n f' c0 Hn Hin) as (f'' & l'' & H1 & H2).
+    exists f'', l''. split; [exact H1|]. intros y Hy. right. exact (H2 y Hy).
+Qed.
+
+(* a record of the set: its directory slot is well-formed and lives apart from the chains *)
+Definition rec_ok (s : st) (v : vol) (rs : list frep) (r : frep) : Prop :=
+  slot_ok v (f_entry (snd (fst r))) /\ blk_home s v rs (e_block (f_entry (snd (fst r)))).
+
+(* the volume of the set, also when the set is empty *)
+Definition lc_vol (fsz : N) (s : st) (vi : nat) (v : vol) : Prop :=
+  s_lock s = false /\ alloc_pre s vi v fsz /\ clusters_fit v /\ 0 < v_spc v /\ blocks_wf (s_disk s) /\
+  find_idx (fun w => v_id w =? v_id v) (s_vols s) 0 = Some vi.
+
+(* the life-cycle invariant: PrMulti's files_rep, plus the slots, the volume, and no id twice
+   in the file table (PrHandles.handles_ok provides the latter) *)
+Definition lc_rep (fsz : N) (s : st) (vi : nat) (v : vol) (m : list member) (rs : list frep) : Prop :=
+  files_rep fsz s vi v m rs /\ Forall (rec_ok s v rs) rs /\ lc_vol fsz s vi v /\ info_ok v /\
+  NoDup (map f_id (s_files s)).
+(* vid: the handle of the volume all members live on *)
+Definition lc_inv (fsz vid : N) (s : st) (m : list member) : Prop :=
+  exists vi v rs, lc_rep fsz s vi v m rs /\ v_id v = vid.
+
+Lemma lc_inv_files_inv fsz vid s m : lc_inv fsz vid s m -> files_inv fsz s m.
+Proof. intros (vi & v & rs & (FR & _) & _). exists vi, v, rs. exact FR. Qed.
+
+Lemma lc_vol_of_rep fsz w h s af fi f vi v ch : file_rep fsz w h s af fi f vi v ch -> lc_vol fsz s vi v.
+Proof.
+  intros [(R1 & _ & _) Hvol Hpre Hfit Hspc Hwf _ _ _ _ _ _ _].
+  repeat (split; [assumption|]).
+  destruct Hpre as ((_ & _ & Hvi & _) & _).
+  destruct (find_idx_nth _ _ _ _ Hvol) as (x & Hx & Hp). rewrite Nat.sub_0_r, Hvi in Hx. injection Hx as <-.
+  apply N.eqb_eq in Hp. rewrite Hp. exact Hvol.
+Qed.
+
+Lemma files_rep_ranges fsz s vi v m rs : files_rep fsz s vi v m rs ->
+  forall r, In r rs -> Forall (fun x => 2 <= x /\ x < v_clusters v + 2) (r_chain r).
+Proof.
+  intros (F & _) r Hr. destruct (In_nth_error _ _ Hr) as (i & Hi).
+  destruct (Forall2_nth_r _ _ _ F i _ Hi) as (x & _ & Rx).
+  exact (file_rep_chain_range fsz _ _ _ _ _ _ _ _ _ Rx).
+Qed.
+
+(* the hypotheses of the flush / close theorems, from the invariant *)
+Lemma lc_rep_slot fsz s vi v m rs : lc_rep fsz s vi v m rs ->
+  forall r, In r rs -> slot_ok v (f_entry (snd (fst r))) /\
+    forall r2, In r2 rs -> blk_apart v (e_block (f_entry (snd (fst r)))) (r_chain r2).
+Proof.
+  intros (FR & Hok & _) r Hr. rewrite Forall_forall in Hok. destruct (Hok r Hr) as [H1 H2].
+  split; [exact H1|]. intros r2 Hr2.
+  exact (blk_home_apart s v rs _ H2 r2 Hr2 (files_rep_ranges fsz s vi v m rs FR r2 Hr2)).
+Qed.
+
+(* ================================================================== 5. the entry of a record under the operations of PrMulti *)
+(* the fields of the in-memory entry that locate and describe the directory slot: name, creation
+   time, block and offset never change; the modification time is kept or taken from the clock *)
+Definition entry_kept (e e' : dirent) : Prop :=
+  e_name e' = e_name e /\ e_ctime e' = e_ctime e /\ e_block e' = e_block e /\ e_offset e' = e_offset e /\
+  (e_mtime e' = e_mtime e \/ exists k, e_mtime e' = clock_ts k).
+
+Lemma entry_kept_refl e : entry_kept e e.
+Proof. repeat split. left. reflexivity. Qed.
+
+Lemma slot_ok_kept v e e' : entry_kept e e' -> slot_ok v e -> slot_ok v e'.
+Proof.
+  intros (E1 & E2 & E3 & E4 & E5) [H1 H2 H3 H4 H5]. constructor.
+  - rewrite E2. exact H1.
+  - destruct E5 as [->|(k & ->)]; [exact H2|]. apply ts_cal_ok, clock_ts_cal.
+  - rewrite E1. exact H3.
+  - rewrite E4. exact H4.
+  - rewrite E3. exact H5.
+Qed.
+
+Lemma slot_ok_rebook v nf fc e : slot_ok v e -> slot_ok (vol_rebook v nf fc) e.
+Proof. intros [H1 H2 H3 H4 H5]. constructor; assumption. Qed.
+
+Section Entry.
+  Variable fsz : N.
+
+  Lemma run_entry_kept w h a s af fi f vi v ch o s' f' :
+    file_rep fsz w h s af fi f vi v ch -> run_op (cop h a) s = (o, s') ->
+    nth_error (s_files s') fi = Some f' -> entry_kept (f_entry f) (f_entry f').
+  Proof.
+    intros R Hrun Hf'.
+    pose proof (file_rep_mw_pre _ _ _ _ _ _ _ _ _ _ R) as Hmw.
+    pose proof R as [Hres Hvol Hpre Hfit Hspc Hwf Hchain Hoff Hsize H32 Hmode Hbytes Haoff].
+    pose proof Hres as (R1 & R2 & R3).
+    assert (Hsame : s' = s -> entry_kept (f_entry f) (f_entry f')).
+    { intros ->. rewrite R3 in Hf'. injection Hf' as <-. apply entry_kept_refl. }
+    assert (Hseek : forall (mm : M unit) oo, mm s = seek_result s fi f oo ->
+              lift (fun _ => RUnit) mm s = (o, s') -> entry_kept (f_entry f) (f_entry f')).
+    { intros mm [n|] Hm Hl; cbn [seek_result] in Hm.
+      - rewrite (lift_ok' _ _ _ _ _ Hm) in Hl. injection Hl as _ <-.
+        unfold PrSeek.upd_file in Hf'. cbn [s_files set_s_files] in Hf'.
+        rewrite (ls_nth_same _ _ _ _ R3) in Hf'. injection Hf' as <-. apply entry_kept_refl.
+      - rewrite (lift_err' _ _ _ _ _ Hm) in Hl. injection Hl as _ <-. apply Hsame. reflexivity. }
+    unfold run_op in Hrun. destruct a as [n|data|x|x|z| | |]; cbn [cop step] in Hrun.
+    - (* read *)
+      destruct Hchain as [(A1 & (fuel0 & A2) & A3)|(A1 & -> & A3)].
+      + destruct Hpre as ((Hnf & Hc & Hvi & Hlenf) & L & Hh).
+        destruct (mgr_read_spec v (s_disk s) (e_cluster (f_entry f)) fuel0 ch (fl_vol v fsz L) Hspc A2
+                    h n fi vi f s R1 R2 R3 Hvol Hvi eq_refl Hnf Hc Hwf eq_refl A3 Hoff Hsize H32)
+          as (s'' & f'' & Hr & _ & Hfiles' & _ & (_ & _ & _ & I4 & _) & _).
+        cbv zeta in Hr. rewrite (lift_ok' _ _ _ _ _ Hr) in Hrun. injection Hrun as _ <-.
+        rewrite Hfiles', (ls_nth_same _ _ _ _ R3) in Hf'. injection Hf' as <-.
+        rewrite I4. apply entry_kept_refl.
+      + cbn [length] in Hsize.
+        assert (E0 : f_offset f = e_size (f_entry f)) by (clear - Hsize Hoff; lia).
+        rewrite (lift_ok' _ _ _ _ _ (mgr_read_at_eof h s fi f vi n Hres Hvol E0)) in Hrun.
+        injection Hrun as _ <-. apply Hsame. reflexivity.
+    - (* write *)
+      destruct (mode_eqb (f_mode f) ReadOnly) eqn:Em.
+      { rewrite (lift_err' _ _ _ _ _ (mgr_write_read_only h data s fi f vi R1 R2 R3 Hvol Em)) in Hrun.
+        injection Hrun as _ <-. apply Hsame. reflexivity. }
+      destruct (mgr_write_spec fsz h data s fi f vi v ch Hmw Em)
+        as (o1 & s1 & Hr & [(-> & f1 & v1 & ch1 & Q)|[(-> & f1 & v1 & ch1 & k & Hk & Q & _)
+                                                     |(-> & _ & _ & _ & Hfiles & _)]]).
+      + rewrite (lift_ok' _ _ _ _ _ Hr) in Hrun. injection Hrun as _ <-.
+        rewrite (mp_files _ _ _ _ _ _ _ _ _ _ _ _ _ _ Q), (ls_nth_same _ _ _ _ R3) in Hf'. injection Hf' as <-.
+        rewrite (mp_entry _ _ _ _ _ _ _ _ _ _ _ _ _ _ Q). cbv zeta. unfold stamp.
+        repeat split. right. exists (s_clock s). reflexivity.
+      + rewrite (lift_err' _ _ _ _ _ Hr) in Hrun. injection Hrun as _ <-.
+        rewrite (mp_files _ _ _ _ _ _ _ _ _ _ _ _ _ _ Q), (ls_nth_same _ _ _ _ R3) in Hf'. injection Hf' as <-.
+        rewrite (mp_entry _ _ _ _ _ _ _ _ _ _ _ _ _ _ Q). cbv zeta.
+        repeat split. left. reflexivity.
+      + rewrite (lift_err' _ _ _ _ _ Hr) in Hrun. injection Hrun as _ <-.
+        rewrite Hfiles, (ls_nth_same _ _ _ _ R3) in Hf'. injection Hf' as <-. apply entry_kept_refl.
+    - exact (Hseek _ _ (file_seek_from_start_spec s h fi f x Hres) Hrun).
+    - exact (Hseek _ _ (file_seek_from_end_spec s h fi f x Hres) Hrun).
+    - exact (Hseek _ _ (file_seek_from_current_spec s h fi f z Hres) Hrun).
+    - rewrite (lift_ok' _ _ _ _ _ (C01_file_length s h fi f Hres)) in Hrun.
+      injection Hrun as _ <-. apply Hsame. reflexivity.
+    - rewrite (lift_ok' _ _ _ _ _ (C01_file_offset s h fi f Hres)) in Hrun.
+      injection Hrun as _ <-. apply Hsame. reflexivity.
+    - rewrite (lift_ok' _ _ _ _ _ (C01_file_eof s h fi f Hres)) in Hrun.
+      injection Hrun as _ <-. apply Hsame. reflexivity.
+  Qed.
+End Entry.
+
+(* ================================================================== 6. the invariant under the operations of PrMulti *)
+Lemma In_list_set_or {A} (l : list A) i x y : In y (list_set l i x) -> y = x \/ In y l.
+Proof. apply In_list_set. Qed.
+
+Lemma map_f_id_list_set (l : list fileinfo) fi f f' : nth_error l fi = Some f -> f_id f' = f_id f ->
+  map f_id (list_set l fi f') = map f_id l.
+Proof.
+  intros Hfi E. rewrite map_list_set, E. apply list_set_same. rewrite nth_error_map, Hfi. reflexivity.
+Qed.
+
+Section StepInv.
+  Variable fsz : N.
+
+  (* PrMulti.files_rep_step with its witnesses made explicit: the record (fi, f, ch) at position
+     i0 becomes (fi, f', ch'), with the effect step_eff on the rest *)
+  Lemma files_rep_step_x s vi v m rs i0 h w af a fi f ch :
+    files_rep fsz s vi v m rs -> nth_error m i0 = Some (h, w, af) -> nth_error rs i0 = Some (fi, f, ch) ->
+    exists o s' af1 f' v' ch',
+      run_op (cop h a) s = (o, s') /\ astep_rel w a af o af1 /\
+      files_rep fsz s' vi v' (list_set m i0 (h, w, af1)) (list_set rs i0 (fi, f', ch')) /\
+      step_eff vi v fi f ch s s' f' v' ch' /\ file_rep fsz w h s' af1 fi f' vi v' ch' /\
+      (space_err o = true -> no_free (s_disk s') v').
+  Proof.
+    intros (F & Hdisj & Hnd) Hi0 Hr0.
+    destruct (Forall2_nth_l _ _ _ F i0 _ Hi0) as (r0 & Hr0' & R0). rewrite Hr0 in Hr0'. injection Hr0' as <-.
+    unfold member_rep in R0. cbn [m_wr m_handle m_af r_chain fst snd] in R0.
+    destruct (rep_step fsz w h a s af fi f vi v ch R0) as (o & s' & af1 & f' & v' & ch' & Hrun & Hrel & R' & Eff & Hfull).
+    exists o, s', af1, f', v', ch'.
+    split; [exact Hrun|]. split; [exact Hrel|].
+    split; [|split; [exact Eff|split; [exact R'|exact Hfull]]].
+    pose proof R' as [(L' & _ & _) _ Hpre' _ _ Hwf' _ _ _ _ _ _ _].
+    pose proof (proj2 (proj2 (fr_res _ _ _ _ _ _ _ _ _ _ R0))) as Hfi.
+    assert (Hkeep : forall i x r, i <> i0 -> nth_error m i = Some x -> nth_error rs i = Some r ->
+              member_rep fsz s vi v x r -> member_rep fsz s' vi v' x r /\ disjoint (r_chain r) ch').
+    { intros i [[h2 w2] af2] [[fi2 f2] ch2] Hne Hx Hr R2.
+      unfold member_rep in *. cbn [m_wr m_handle m_af r_chain fst snd] in *.
+      assert (Hh : h2 <> h).
+      { intros ->. apply Hne. exact (NoDup_handles_nth m Hnd i i0 _ _ Hx Hi0 eq_refl). }
+      assert (Hfi2 : fi2 <> fi).
+      { intros ->. apply Hh. pose proof (fr_res _ _ _ _ _ _ _ _ _ _ R2) as Q2.
+        pose proof (fr_res _ _ _ _ _ _ _ _ _ _ R0) as Q0.
+        rewrite <- (resolves_id _ _ _ _ Q2), <- (resolves_id _ _ _ _ Q0).
+        destruct Q2 as (_ & _ & N2). rewrite Hfi in N2. congruence. }
+      apply (other_rep_kept fsz w2 h2 s s' af2 fi2 f2 vi v ch2 fi f f' v' ch ch' R2 Hfi2 Hfi); try assumption.
+      exact (Hdisj i i0 _ _ Hne Hr Hr0). }
+    split; [|split].
+    - apply (Forall2_list_set (member_rep fsz s vi v) (member_rep fsz s' vi v') m rs F i0).
+      + exact R'.
+      + intros i x r Hne Hx Hr Rx. exact (proj1 (Hkeep i x r Hne Hx Hr Rx)).
+    - intros i j a0 b0 Hij Ha Hb.
+      destruct (nth_error_list_set_cases _ _ _ _ _ Ha) as [(-> & ->)|(Hi & Ha')];
+        destruct (nth_error_list_set_cases _ _ _ _ _ Hb) as [(-> & ->)|(Hj & Hb')].
+      + contradiction.
+      + destruct (Forall2_nth_r _ _ _ F j _ Hb') as (x & Hx & Rx).
+        apply disjoint_sym. exact (proj2 (Hkeep j x b0 Hj Hx Hb' Rx)).
+      + destruct (Forall2_nth_r _ _ _ F i _ Ha') as (x & Hx & Rx).
+        exact (proj2 (Hkeep i x a0 Hi Hx Ha' Rx)).
+      + exact (Hdisj i j a0 b0 Hij Ha' Hb').
+    - rewrite map_list_set. cbn [m_handle fst].
+      rewrite list_set_same; [exact Hnd|]. rewrite nth_error_map, Hi0. reflexivity.
+  Qed.
+
+  (* the home of a block survives the step: its directory chain shares no cluster with the
+     chain that was written, so it is still a chain, and it avoids the clusters the write took *)
+  Lemma blk_home_step s s' vi v v' rs i0 fi f f' ch ch' blk :
+    step_eff vi v fi f ch s s' f' v' ch' -> nth_error rs i0 = Some (fi, f, ch) ->
+    blk_home s v rs blk -> blk_home s' v' (list_set rs i0 (fi, f', ch')) blk.
+  Proof.
+    intros [(nf & fc & ->) _ _ _ Hoth] Hr0 [H|(c0 & fu & dch & Hb & Hch & Hdis)]; [left; exact H|right].
+    destruct (Hoth c0 fu dch Hch (Hdis _ (nth_error_In _ _ Hr0))) as (O1 & _ & O3).
+    exists c0, fu, dch. split; [exact Hb|]. split; [rewrite chain_of_rebook; exact O1|].
+    intros r Hr. apply In_list_set_or in Hr. destruct Hr as [->|Hr]; [exact O3|exact (Hdis r Hr)].
+  Qed.
+
+  (* one operation of PrMulti on member h: the life-cycle invariant is kept *)
+  Theorem lc_step s vi v m rs i0 h w af a :
+    lc_rep fsz s vi v m rs -> nth_error m i0 = Some (h, w, af) ->
+    exists o s' af1 v' rs',
+      run_op (cop h a) s = (o, s') /\ astep_rel w a af o af1 /\
+      lc_rep fsz s' vi v' (list_set m i0 (h, w, af1)) rs' /\ v_id v' = v_id v /\
+      (space_err o = true -> no_free (s_disk s') v').
+  Proof.
+    intros (FR & Hok & Hvolctx & Hinfo & Hndf) Hi0.
+    pose proof FR as (F & _ & _).
+    destruct (Forall2_nth_l _ _ _ F i0 _ Hi0) as (((fi & f) & ch) & Hr0 & R0).
+    unfold member_rep in R0. cbn [m_wr m_handle m_af r_chain fst snd] in R0.
+    destruct (files_rep_step_x s vi v m rs i0 h w af a fi f ch FR Hi0 Hr0)
+      as (o & s' & af1 & f' & v' & ch' & Hrun & Hrel & FR' & Eff & R' & Hfull).
+    exists o, s', af1, v', (list_set rs i0 (fi, f', ch')).
+    pose proof (se_vol _ _ _ _ _ _ _ _ _ _ Eff) as (nf & fc & Ev).
+    split; [exact Hrun|]. split; [exact Hrel|]. split; [|split; [subst v'; reflexivity|exact Hfull]].
+    pose proof (proj2 (proj2 (fr_res _ _ _ _ _ _ _ _ _ _ R'))) as Hf'.
+    pose proof (run_entry_kept fsz w h a s af fi f vi v ch o s' f' R0 Hrun Hf') as Hkept.
+    split; [exact FR'|]. split; [|split; [exact (lc_vol_of_rep fsz _ _ _ _ _ _ _ _ _ R')|split]].
+    - rewrite Forall_forall in *. intros r Hr. apply In_list_set_or in Hr.
+      destruct Hr as [->|Hr].
+      + destruct (Hok _ (nth_error_In _ _ Hr0)) as [S1 S2]. unfold rec_ok in *. cbn [fst snd] in *.
+        destruct Hkept as (K1 & K2 & K3 & K4 & K5).
+        split.
+        * subst v'. apply slot_ok_rebook.
+          exact (slot_ok_kept v _ _ (conj K1 (conj K2 (conj K3 (conj K4 K5)))) S1).
+        * rewrite K3. exact (blk_home_step s s' vi v v' rs i0 fi f f' ch ch' _ Eff Hr0 S2).
+      + destruct (Hok r Hr) as [S1 S2]. split.
+        * subst v'. apply slot_ok_rebook. exact S1.
+        * exact (blk_home_step s s' vi v v' rs i0 fi f f' ch ch' _ Eff Hr0 S2).
+    - subst v'. exact Hinfo.
+    - rewrite (se_files _ _ _ _ _ _ _ _ _ _ Eff).
+      rewrite (map_f_id_list_set _ fi f f' (proj2 (proj2 (fr_res _ _ _ _ _ _ _ _ _ _ R0)))
+                 (se_id _ _ _ _ _ _ _ _ _ _ Eff)).
+      exact Hndf.
+  Qed.
+End StepInv.
+
+(* ================================================================== 7. flush and close, on the invariant *)
+Lemma lc_vol_move fsz s s' vi v : lc_vol fsz s vi v ->
+  s_lock s' = false -> s_vols s' = s_vols s -> no_faults s' -> cache_ok s' -> blocks_wf (s_disk s') ->
+  lc_vol fsz s' vi v.
+Proof.
+  intros (_ & ((_ & _ & Hvi & _) & L & Hh) & Hfit & Hspc & _ & Hfind) Hl Hv Hnf Hc Hwf.
+  split; [exact Hl|]. split.
+  { split; [|split; assumption]. split; [exact Hnf|]. split; [exact Hc|].
+    split; [rewrite Hv; exact Hvi|]. intros k _. apply Hwf. }
+  repeat (split; [assumption|]). rewrite Hv. exact Hfind.
+Qed.
+
+(* the home of a block depends on the FAT and on the chains of the set only *)
+Lemma blk_home_mono s s' v rs rs' blk : blk_home s v rs blk ->
+  (forall x fu l, chain_of (s_disk s) v x fu = Some l -> chain_of (s_disk s') v x fu = Some l) ->
+  (forall r', In r' rs' -> exists r, In r rs /\ incl (r_chain r') (r_chain r)) ->
+  blk_home s' v rs' blk.
+Proof.
+  intros [H|(c0 & fu & dch & Hb & Hch & Hdis)] Hc Hsub; [left; exact H|right].
+  exists c0, fu, dch. split; [exact Hb|]. split; [exact (Hc _ _ _ Hch)|].
+  intros r' Hr' y Hy Hy'. destruct (Hsub r' Hr') as (r & Hr & Hincl). exact (Hdis r Hr y Hy (Hincl y Hy')).
+Qed.
+
+Lemma flush_eff_chains v e s s' : flush_eff v e s s' -> ~ fat_area v (e_block e) -> info_ok v ->
+  forall x fu l, chain_of (s_disk s) v x fu = Some l -> chain_of (s_disk s') v x fu = Some l.
+Proof.
+  intros (_ & _ & _ & _ & Hfr) Hnfat Hinfo x fu l H. rewrite <- H. apply chain_of_ext.
+  intros j Hj. apply Hfr.
+  - intros ->. contradiction.
+  - intros E ->. exact (proj1 (Hinfo E) Hj).
+Qed.
+
+Section Life.
+  Variable fsz : N.
+
+  Lemma lc_member s vi v m rs h : lc_rep fsz s vi v m rs -> In h (map m_handle m) ->
+    exists i0 w af fi f ch, nth_error m i0 = Some (h, w, af) /\ nth_error rs i0 = Some (fi, f, ch) /\
+      file_rep fsz w h s af fi f vi v ch.
+  Proof.
+    intros ((F & _) & _) Hin. destruct (m_find_member h m Hin) as (w & af & _ & Hm).
+    destruct (In_nth_error _ _ Hm) as (i0 & Hi0).
+    destruct (Forall2_nth_l _ _ _ F i0 _ Hi0) as (((fi & f) & ch) & Hr0 & R0).
+    exists i0, w, af, fi, f, ch. split; [exact Hi0|]. split; [exact Hr0|exact R0].
+  Qed.
+
+  (* 1. C01, flush: Flush h of a member returns Ok, and the invariant holds for the SAME set -
+     every member, the flushed one included, keeps its bytes and its offset *)
+  Theorem C01_flush_keeps vid s m h : lc_inv fsz vid s m -> In h (map m_handle m) ->
+    exists s', run_op (Flush h) s = (Ok RUnit, s') /\ lc_inv fsz vid s' m.
+  Proof.
+    intros (vi & v & rs & LR & Evid) Hin.
+    destruct (lc_member s vi v m rs h LR Hin) as (i0 & w & af & fi & f & ch & Hi0 & Hr0 & R0).
+    destruct (lc_rep_slot fsz s vi v m rs LR _ (nth_error_In _ _ Hr0)) as [Hslot Hapart].
+    cbn [fst snd] in Hslot, Hapart.
+    destruct LR as (FR & Hok & Hvolctx & Hinfo & Hndf).
+    destruct (C01_flush_keeps_rep fsz s vi v m rs i0 h w af fi f ch FR Hi0 Hr0 Hslot Hinfo Hapart)
+      as (s' & Hrun & Heff & FR').
+    exists s'. split; [exact Hrun|]. exists vi, v, rs. split; [|exact Evid].
+    pose proof Heff as ((M1 & _ & M3 & _ & M6 & _) & Hnf' & Hc' & Hwf' & _).
+    split; [exact FR'|]. split; [|split; [|split; [exact Hinfo|rewrite M3; exact Hndf]]].
+    - rewrite Forall_forall in *. intros r Hr. destruct (Hok r Hr) as [S1 S2]. split; [exact S1|].
+      apply (blk_home_mono s s' v rs rs _ S2).
+      + exact (flush_eff_chains v _ s s' Heff (so_nfat _ _ Hslot) Hinfo).
+      + intros r' Hr'. exists r'. split; [exact Hr'|apply incl_refl].
+    - apply (lc_vol_move fsz s s' vi v Hvolctx); try assumption.
+      rewrite M6. exact (proj1 Hvolctx).
+  Qed.
+
+  (* 2. C01, close: CloseFile h of a member returns Ok, and the invariant holds for the set
+     without h - every other member keeps its bytes and its offset (its index in the file table
+     may have changed) *)
+  Theorem C01_close_removes vid s m h : lc_inv fsz vid s m -> In h (map m_handle m) ->
+    exists s', run_op (CloseFile h) s = (Ok RUnit, s') /\ lc_inv fsz vid s' (remove_member h m).
+  Proof.
+    intros (vi & v & rs & LR & Evid) Hin.
+    destruct (lc_member s vi v m rs h LR Hin) as (i0 & w & af & fi & f & ch & Hi0 & Hr0 & R0).
+    destruct (lc_rep_slot fsz s vi v m rs LR _ (nth_error_In _ _ Hr0)) as [Hslot Hapart].
+    cbn [fst snd] in Hslot, Hapart.
+    destruct LR as (FR & Hok & Hvolctx & Hinfo & Hndf).
+    destruct (C01_close_removes_rep fsz s vi v m rs i0 h w af fi f ch FR Hi0 Hr0 Hslot Hinfo Hapart Hndf)
+      as (s1 & s' & Hrun & _ & Heff & Es' & FR').
+    exists s'. split; [exact Hrun|]. exists vi, v, (remove_rep h fi (length (s_files s) - 1) rs).
+    split; [|exact Evid].
+    pose proof Heff as ((M1 & _ & M3 & _ & M6 & _) & Hnf' & Hc' & Hwf' & _).
+    split; [exact FR'|]. split; [|split; [|split; [exact Hinfo|]]].
+    - rewrite Forall_forall in *. intros r' Hr'. unfold remove_rep in Hr'.
+      apply in_map_iff in Hr'. destruct Hr' as (r & <- & Hr). apply filter_In in Hr. destruct Hr as [Hr _].
+      destruct (Hok r Hr) as [S1 S2]. split; [exact S1|]. cbn [reidx fst snd].
+      apply (blk_home_mono s s' v rs _ _ S2).
+      + subst s'. cbn [s_disk set_s_files].
+        exact (flush_eff_chains v _ s s1 Heff (so_nfat _ _ Hslot) Hinfo).
+      + intros q' Hq'. unfold remove_rep in Hq'. apply in_map_iff in Hq'. destruct Hq' as (q & <- & Hq).
+        apply filter_In in Hq. exists q. split; [exact (proj1 Hq)|apply incl_refl].
+    - subst s'. apply (lc_vol_move fsz s _ vi v Hvolctx); cbn [s_lock s_vols s_disk set_s_files]; try assumption.
+      rewrite M6. exact (proj1 Hvolctx).
+    - subst s'. cbn [s_files set_s_files]. apply PrHandles.swap_remove_NoDup_map. rewrite M3. exact Hndf.
+  Qed.
+End Life.
+
+(* ================================================================== 8. open: a record joins the set *)
+Lemma NoDup_snoc {A} (l : list A) x : NoDup l -> ~ In x l -> NoDup (l ++ [x]).
+Proof.
+  induction l as [|a t IH]; intros Hnd Hx; cbn [app]; [constructor; [intros []|constructor]|].
+  inversion Hnd as [|? ? Hn Ht]; subst. constructor.
+  - rewrite in_app_iff. intros [H|[->|[]]]; [exact (Hn H)|apply Hx; left; reflexivity].
+  - apply IH; [exact Ht|]. intros H. apply Hx. right. exact H.
+Qed.
+
+Section Push.
+  Variable fsz : N.
+
+  (* the state-level core of every successful open: the record nf is appended to the file table
+     (and the handle counter advances).  nf's id is fresh, its chain ch shares no cluster with
+     the chain of a member nor with the directory chain that holds a member's slot, and its
+     own slot is well-formed and lives apart. *)
+  Lemma lc_rep_push s vi v m rs nid nf w ch :
+    lc_rep fsz s vi v m rs ->
+    (forall g, In g (s_files s) -> f_id g <> f_id nf) ->
+    f_vol nf = v_id v -> chain_ok s v nf ch ->
+    f_offset nf <= e_size (f_entry nf) ->
+    e_size (f_entry nf) <= N.of_nat (length ch) * bytes_per_cluster v ->
+    e_size (f_entry nf) < U32 -> mode_eqb (f_mode nf) ReadOnly = negb w ->
+    (forall r, In r rs -> disjoint ch (r_chain r)) ->
+    (forall r, In r rs -> forall c0 fu dch, In (e_block (f_entry (snd (fst r)))) (cluster_blocks v c0) ->
+       chain_of (s_disk s) v c0 fu = Some dch -> disjoint dch ch) ->
+    slot_ok v (f_entry nf) ->
+    blk_home s v ((length (s_files s), nf, ch) :: rs) (e_block (f_entry nf)) ->
+    lc_rep fsz (set_s_files (set_s_next_id s nid) (s_files s ++ [nf])) vi v
+      ((f_id nf, w, (firstn (N.to_nat (e_size (f_entry nf))) (file_bytes (s_disk s) v ch), f_offset nf)) :: m)
+      ((length (s_files s), nf, ch) :: rs).
+  Proof.
+    intros ((F & Hdisj & Hnd) & Hok & Hvolctx & Hinfo & Hndf) Hfresh Hvolid Hchain Hoff Hsize H32 Hmode
+           Hdis Hdirs Hslot Hhome.
+    set (s' := set_s_files (set_s_next_id s nid) (s_files s ++ [nf])).
+    pose proof Hvolctx as (Hl & Hpre & Hfit & Hspc & Hwf & Hfind).
+    assert (Hvolctx' : lc_vol fsz s' vi v).
+    { apply (lc_vol_move fsz s s' vi v Hvolctx); try reflexivity; try assumption.
+      - exact (proj1 (proj1 Hpre)).
+      - exact (proj1 (proj2 (proj1 Hpre))). }
+    split; [split; [|split]|split; [|split; [exact Hvolctx'|split; [exact Hinfo|]]]].
+    - constructor.
+      + unfold member_rep. cbn [m_wr m_handle m_af r_chain fst snd].
+        destruct Hvolctx' as (Hl' & Hpre' & _ & _ & Hwf' & Hfind').
+        constructor; try assumption; try reflexivity.
+        * split; [exact Hl'|]. unfold s'. cbn [s_files set_s_files]. split.
+          -- rewrite (find_idx_app_new (fun g => f_id g =? f_id nf) (s_files s) nf 0); [reflexivity| |apply N.eqb_refl].
+             intros x Hx. apply N.eqb_neq. exact (Hfresh x Hx).
+          -- rewrite nth_error_app2 by lia. rewrite Nat.sub_diag. reflexivity.
+        * rewrite Hvolid. exact Hfind'.
+      + apply (Forall2_impl_in _ _ _ _ F). intros [[h2 w2] af2] [[fi2 f2] ch2] _ _ R2.
+        unfold member_rep in *. cbn [m_wr m_handle m_af r_chain fst snd] in *.
+        pose proof (fr_res _ _ _ _ _ _ _ _ _ _ R2) as (_ & Q2 & Q3).
+        destruct Hvolctx' as (Hl' & ((Hnf' & Hc' & _) & _) & _ & _ & Hwf' & _).
+        apply (file_rep_move fsz w2 h2 s s' af2 fi2 f2 vi v ch2 fi2 R2); try assumption; try reflexivity.
+        * unfold s'. cbn [s_files set_s_files]. apply find_idx_app_l. exact Q2.
+        * unfold s'. cbn [s_files set_s_files]. rewrite nth_error_app1; [exact Q3|].
+          apply nth_error_Some. congruence.
+        * intros fu _ H. exact H.
+    - apply (fop_pairwise (fun a b => disjoint (r_chain a) (r_chain b))).
+      { intros a b. apply disjoint_sym. }
+      constructor; [|apply pairwise_fop; exact Hdisj].
+      apply Forall_forall. intros r Hr. exact (Hdis r Hr).
+    - cbn [map m_handle fst]. constructor; [|exact Hnd].
+      intros Hin. apply in_map_iff in Hin. destruct Hin as (x & Ex & Hx).
+      destruct (In_nth_error _ _ Hx) as (i & Hi).
+      destruct (Forall2_nth_l _ _ _ F i _ Hi) as (r & _ & Rx).
+      pose proof (fr_res _ _ _ _ _ _ _ _ _ _ Rx) as Qx. pose proof (resolves_id _ _ _ _ Qx) as Eid.
+      destruct Qx as (_ & _ & Qn). apply (Hfresh _ (nth_error_In _ _ Qn)). congruence.
+    - constructor.
+      + split; [exact Hslot|].
+        apply (blk_home_mono s s' v _ _ _ Hhome); [intros x fu l H; exact H|].
+        intros r' Hr'. exists r'. split; [exact Hr'|apply incl_refl].
+      + rewrite Forall_forall in *. intros r Hr. destruct (Hok r Hr) as [S1 S2]. split; [exact S1|].
+        destruct S2 as [S2|(c0 & fu & dch & Hb & Hch & Hd)]; [left; exact S2|right].
+        exists c0, fu, dch. split; [exact Hb|]. split; [exact Hch|].
+        intros r' [<-|Hr']; [exact (Hdirs r Hr c0 fu dch Hb Hch)|exact (Hd r' Hr')].
+    - unfold s'. cbn [s_files set_s_files]. rewrite map_app. apply NoDup_snoc; [exact Hndf|].
+      cbn [map]. intros Hin. apply in_map_iff in Hin. destruct Hin as (g & Eg & Hg). exact (Hfresh g Hg Eg).
+  Qed.
+
+  (* a state with the same disk and tables (a directory lookup in between, the handle counter
+     advanced, the clock read) satisfies the invariant as well *)
+  Lemma lc_rep_same s s1 vi v m rs : lc_rep fsz s vi v m rs ->
+    s_disk s1 = s_disk s -> s_vols s1 = s_vols s -> s_files s1 = s_files s -> s_lock s1 = s_lock s ->
+    no_faults s1 -> cache_ok s1 -> lc_rep fsz s1 vi v m rs.
+  Proof.
+    intros ((F & Hdisj & Hnd) & Hok & Hvolctx & Hinfo & Hndf) Hd M1 M3 M6 Hnf1 Hc1.
+    assert (Hwf1 : blocks_wf (s_disk s1)) by (rewrite Hd; exact (proj1 (proj2 (proj2 (proj2 (proj2 Hvolctx)))))).
+    split; [split; [|split; assumption]|split; [|split; [|split; [exact Hinfo|rewrite M3; exact Hndf]]]].
+    - apply (Forall2_impl_in _ _ _ _ F). intros [[h2 w2] af2] [[fi2 f2] ch2] _ _ R2.
+      unfold member_rep in *. cbn [m_wr m_handle m_af r_chain fst snd] in *.
+      pose proof (fr_res _ _ _ _ _ _ _ _ _ _ R2) as (Q1 & Q2 & Q3).
+      apply (file_rep_move fsz w2 h2 s s1 af2 fi2 f2 vi v ch2 fi2 R2); try assumption; congruence.
+    - rewrite Forall_forall in *. intros r Hr. destruct (Hok r Hr) as [S1 S2]. split; [exact S1|].
+      apply (blk_home_mono s s1 v rs rs _ S2); [rewrite Hd; intros x fu l H; exact H|].
+      intros r' Hr'. exists r'. split; [exact Hr'|apply incl_refl].
+    - apply (lc_vol_move fsz s s1 vi v Hvolctx); try assumption. rewrite M6. exact (proj1 Hvolctx).
+  Qed.
+
+  Lemma lc_rep_ro s s1 vi v m rs : lc_rep fsz s vi v m rs -> ro_step s s1 -> lc_rep fsz s1 vi v m rs.
+  Proof.
+    intros LR (Hd & Hc1 & Hnf1 & (M1 & _ & M3 & _ & _ & M6 & _)).
+    exact (lc_rep_same s s1 vi v m rs LR Hd M1 M3 M6 Hnf1 Hc1).
+  Qed.
+End Push.
+
+(* ---- handles: determinism, and states with the same tables ---- *)
+Lemma Ok_inj {A} (a b : A) : Ok a = Ok b -> a = b.
+Proof. intros H. injection H as H. exact H. Qed.
+
+Lemma resolves_det s h fi f fi' f' : resolves s h fi f -> resolves s h fi' f' -> fi = fi' /\ f = f'.
+Proof.
+  intros (_ & A1 & A2) (_ & B1 & B2). rewrite A1 in B1. injection B1 as <-. rewrite A2 in B2.
+  injection B2 as <-. split; reflexivity.
+Qed.
+
+Lemma resolves_dir_move s s' d di dd vi v : PrModes.resolves s d di dd vi v ->
+  s_lock s' = s_lock s -> s_dirs s' = s_dirs s -> s_vols s' = s_vols s ->
+  PrModes.resolves s' d di dd vi v.
+Proof.
+  intros (Hl & H1 & H2 & H3 & H4) El Ed Ev.
+  rewrite PrHandles.get_dir_by_id_eq in H1. rewrite PrHandles.get_dir_eq in H2.
+  rewrite PrHandles.get_volume_by_id_eq in H3. rewrite PrHandles.get_vol_eq in H4.
+  unfold PrModes.resolves.
+  rewrite PrHandles.get_dir_by_id_eq, PrHandles.get_dir_eq, PrHandles.get_volume_by_id_eq, PrHandles.get_vol_eq.
+  rewrite El, Ed, Ev. split; [exact Hl|].
+  destruct (find_idx (fun d0 => d_id d0 =? d) (s_dirs s) 0) as [i|]; [|discriminate H1].
+  injection H1 as ->.
+  destruct (nth_error (s_dirs s) di) as [x|]; [|discriminate H2]. injection H2 as ->.
+  destruct (find_idx (fun v0 => v_id v0 =? d_vol dd) (s_vols s) 0) as [j|]; [|discriminate H3].
+  injection H3 as ->.
+  destruct (nth_error (s_vols s) vi) as [y|]; [|discriminate H4]. injection H4 as ->.
+  repeat split; reflexivity.
+Qed.
+
+(* ================================================================== 9. open of an existing file *)
+(* l shares no cluster with the chain of any open file of the set ... *)
+Definition chain_free (s : st) (v : vol) (m : list member) (l : list N) : Prop :=
+  forall h2 fi2 f2 fu ch2, In h2 (map m_handle m) -> resolves s h2 fi2 f2 ->
+    chain_of (s_disk s) v (e_cluster (f_entry f2)) fu = Some ch2 -> disjoint l ch2.
+(* ... nor with the chain from the cluster that holds the directory slot of an open file of the set *)
+Definition dirs_free (s : st) (v : vol) (m : list member) (l : list N) : Prop :=
+  forall h2 fi2 f2 c0 fu dch, In h2 (map m_handle m) -> resolves s h2 fi2 f2 ->
+    In (e_block (f_entry f2)) (cluster_blocks v c0) -> chain_of (s_disk s) v c0 fu = Some dch -> disjoint dch l.
+(* the directory whose blocks are bl: no FAT sectors; the root region of a FAT16 volume, or the
+   blocks of a cluster chain that shares no cluster with ch nor with the chain of a member *)
+Definition dir_home (s : st) (v : vol) (m : list member) (bl ch : list N) : Prop :=
+  (forall j, In j bl -> ~ fat_area v j) /\
+  ((forall j c, In j bl -> 2 <= c -> ~ In j (cluster_blocks v c)) \/
+   (exists dch x fu, chain_of (s_disk s) v x fu = Some dch /\ bl = data_blocks v dch /\
+                     disjoint dch ch /\ chain_free s v m dch)).
+
+(* the chain of a directory entry: from its first cluster, or none *)
+Definition entry_chain (d : disk) (v : vol) (e : dirent) (ch : list N) : Prop :=
+  (2 <= e_cluster e /\ exists fu, chain_of d v (e_cluster e) fu = Some ch) \/ (e_cluster e < 2 /\ ch = []).
+
+(* what the lookup returns is a well-formed slot of the directory *)
+Lemma live_entry_ok d bl fat32 t : blocks_wf d -> In t (live_in_blocks d bl) ->
+  let e := t_entry fat32 t in
+  In (e_block e) bl /\ e_offset e + 32 <= 512 /\ length (e_name e) = 11%nat /\
+  ts_ok (e_ctime e) /\ ts_ok (e_mtime e).
+Proof.
+  intros Hwf Hin. apply In_live in Hin. destruct Hin as (b & i & Hb & Hi & -> & _).
+  unfold t_entry, get_entry. cbn [fst snd e_block e_offset e_name e_ctime e_mtime].
+  split; [exact Hb|]. split; [clear - Hi; lia|].
+  split; [|split; apply ts_from_fat_ok].
+  rewrite firstn_length, slot_length; [reflexivity|]. rewrite (Hwf b). clear - Hi. lia.
+Qed.
+
+Section Open.
+  Variable fsz : N.
+
+  Lemma rep_record s vi v m rs r : files_rep fsz s vi v m rs -> In r rs ->
+    exists h2 w2 af2, In h2 (map m_handle m) /\
+      file_rep fsz w2 h2 s af2 (fst (fst r)) (snd (fst r)) vi v (r_chain r).
+  Proof.
+    intros (F & _) Hr. destruct (In_nth_error _ _ Hr) as (i & Hi).
+    destruct (Forall2_nth_r _ _ _ F i _ Hi) as ([[h2 w2] af2] & Hx & Rx).
+    exists h2, w2, af2. split; [|exact Rx].
+    apply (in_map m_handle m (h2, w2, af2)). exact (nth_error_In _ _ Hx).
+  Qed.
+
+  Lemma chain_free_rep s vi v m rs l : files_rep fsz s vi v m rs -> chain_free s v m l ->
+    forall r, In r rs -> disjoint l (r_chain r).
+  Proof.
+    intros FR Hfree r Hr. destruct (rep_record s vi v m rs r FR Hr) as (h2 & w2 & af2 & Hh2 & R2).
+    destruct (fr_chain _ _ _ _ _ _ _ _ _ _ R2) as [(_ & (fu & A2) & _)|(_ & E & _)].
+    - exact (Hfree h2 _ _ fu _ Hh2 (fr_res _ _ _ _ _ _ _ _ _ _ R2) A2).
+    - rewrite E. intros y _ [].
+  Qed.
+
+  Lemma dirs_free_rep s vi v m rs l : files_rep fsz s vi v m rs -> dirs_free s v m l ->
+    forall r, In r rs -> forall c0 fu dch, In (e_block (f_entry (snd (fst r)))) (cluster_blocks v c0) ->
+      chain_of (s_disk s) v c0 fu = Some dch -> disjoint dch l.
+  Proof.
+    intros FR Hfree r Hr c0 fu dch Hb Hch.
+    destruct (rep_record s vi v m rs r FR Hr) as (h2 & w2 & af2 & Hh2 & R2).
+    exact (Hfree h2 _ _ c0 fu dch Hh2 (fr_res _ _ _ _ _ _ _ _ _ _ R2) Hb Hch).
+  Qed.
+
+  (* the volume the directory handle resolves to is the volume of the invariant *)
+  Lemma lc_vol_same s vi v vi0 v0 d di dd : lc_vol fsz s vi0 v0 ->
+    PrModes.resolves s d di dd vi v -> d_vol dd = v_id v0 -> vi = vi0 /\ v = v0.
+  Proof.
+    intros (_ & ((_ & _ & Hvi0 & _) & _) & _ & _ & _ & Hfind0) (_ & _ & _ & H3 & H4) E.
+    rewrite PrHandles.get_volume_by_id_eq, E, Hfind0 in H3. injection H3 as <-.
+    rewrite PrHandles.get_vol_eq, Hvi0 in H4. injection H4 as <-. split; reflexivity.
+  Qed.
+
+  (* the home of the slot of an entry found in a directory that lives apart *)
+  Lemma dir_home_blk s vi v m rs bl ch fi nf blk : files_rep fsz s vi v m rs ->
+    dir_home s v m bl ch -> In blk bl -> blk_home s v ((fi, nf, ch) :: rs) blk.
+  Proof.
+    intros FR (_ & [H|(dch & x & fu & Hch & -> & Hd1 & Hd2)]) Hb.
+    - left. intros c Hc. exact (H blk c Hb Hc).
+    - right. unfold data_blocks in Hb. apply in_flat_map in Hb. destruct Hb as (c0 & Hc0 & Hb).
+      destruct (chain_of_suffix _ _ _ _ _ _ Hch Hc0) as (fu' & l' & Hl' & Hincl).
+      exists c0, fu', l'. split; [exact Hb|]. split; [exact Hl'|].
+      intros r [<-|Hr] y Hy; [exact (Hd1 y (Hincl y Hy))|].
+      exact (chain_free_rep s vi v m rs dch FR Hd2 r Hr y (Hincl y Hy)).
+  Qed.
+
+  (* 3. C01, open of an existing file that is not open, mode ReadOnly / ReadWriteAppend /
+     ReadWriteCreateOrAppend, through a directory handle of the volume of the set: the call
+     returns the next handle, and the invariant holds for the set plus the new member, whose
+     byte array is the first e_size bytes of the entry's chain and whose offset is 0 (the size,
+     for the append modes).  The entry e is what the lookup finds (C06_find).
+     Hypotheses about the medium: the entry's chain is a chain that can hold e_size bytes and
+     shares no cluster with a member's chain (chain_free) nor with the directory chain of a
+     member's slot (dirs_free); the directory lives apart (dir_home).  The new handle is fresh:
+     no_file (s_next_id s) s, which PrHandles.handles_ok provides. *)
+  Theorem C01_open_adds vid s m d di dd vi v name sfn md bl t ch :
+    lc_inv fsz vid s m ->
+    PrModes.resolves s d di dd vi v -> d_vol dd = vid ->
+    is_full (s_files s) (s_maxf s) = false ->
+    sfn_of_str name = Some sfn -> PrModes.dot_name sfn = false ->
+    dir_blocks (s_disk s) v (d_cluster dd) = Some bl ->
+    find (t_matches sfn) (live_in_blocks (s_disk s) bl) = Some t ->
+    let e := t_entry (v_fat32 v) t in
+    PrModes.open_refusal md (Ok e) (PrModes.is_open s (d_vol dd) e) = None ->
+    md = ReadOnly \/ md = ReadWriteAppend \/ md = ReadWriteCreateOrAppend ->
+    entry_chain (s_disk s) v e ch ->
+    e_size e <= N.of_nat (length ch) * bytes_per_cluster v -> e_size e < U32 ->
+    chain_free s v m ch -> dirs_free s v m ch -> dir_home s v m bl ch ->
+    PrHandles.no_file (s_next_id s) s ->
+    exists s', run_op (OpenFile d name md) s = (Ok (RHandle (s_next_id s)), s') /\
+      lc_inv fsz vid s' ((s_next_id s, negb (mode_eqb md ReadOnly),
+                          (firstn (N.to_nat (e_size e)) (file_bytes (s_disk s) v ch),
+                           PrModes.start_offset md e)) :: m).
+  Proof.
+    intros (vi0 & v0 & rs & LR & Evid) Hres Hdvol Hfull Hsfn Hdot Hbl Hfind e Href Hmd Hech Hsize H32
+           Hcf Hdf Hdh Hfresh.
+    pose proof LR as (FR & Hok & Hvolctx & Hinfo & Hndf).
+    destruct (lc_vol_same s vi v vi0 v0 d di dd Hvolctx Hres ltac:(congruence)) as [-> ->].
+    pose proof Hvolctx as (Hl & ((Hnf & Hc & Hvi & _) & L & _) & _ & _ & Hwf & _).
+    destruct (C06_find vi0 v0 (d_cluster dd) sfn s bl Hvi (fl_vol _ _ L) Hnf Hc Hbl)
+      as (s1 & Hlook & Hro).
+    rewrite Hfind in Hlook. fold e in Hlook.
+    pose proof Hro as (Hd & Hc1 & Hnf1 & Hm). pose proof Hm as (M1 & _ & M3 & M4 & _).
+    assert (Href1 : PrModes.open_refusal md (Ok e) (PrModes.is_open s1 (d_vol dd) e) = None).
+    { unfold PrModes.is_open in *. rewrite M3. exact Href. }
+    pose proof (PrModes.C07_open_existing_keep s d di dd vi0 v0 name sfn md e s1 Hres Hfull Hsfn Hdot
+                  Hlook Href1 Hmd) as Hopen.
+    rewrite M4 in Hopen.
+    set (nf := mk_fileinfo (s_next_id s) (d_vol dd) 0 (e_cluster e) (PrModes.start_offset md e)
+                           (solve_mode_variant md true) e false) in *.
+    eexists. split; [unfold run_op; cbn [step]; exact (lift_ok' RHandle _ _ _ _ Hopen)|].
+    exists vi0, v0, ((length (s_files s1), nf, ch) :: rs). split; [|exact Evid].
+    pose proof (find_some _ _ Hfind) as [Hlive _].
+    destruct (live_entry_ok (s_disk s) bl (v_fat32 v0) t Hwf Hlive) as (Eb & Eo & En & Ec & Emt).
+    fold e in Eb, Eo, En, Ec, Emt.
+    pose proof (lc_rep_push fsz s1 vi0 v0 m rs ((s_next_id s + 1) mod U32) nf (negb (mode_eqb md ReadOnly)) ch
+                  (lc_rep_ro fsz s s1 vi0 v0 m rs LR Hro)) as P.
+    cbn [f_id f_vol f_offset f_entry f_mode nf] in P. rewrite Hd in P. apply P; clear P.
+    - intros g Hg. rewrite M3 in Hg. exact (Hfresh g Hg).
+    - symmetry. exact (PrModes.resolves_vol_id _ _ _ _ _ _ Hres).
+    - unfold chain_ok. cbn [f_entry f_cur_off f_cur_cluster nf]. rewrite Hd.
+      destruct Hech as [(A1 & fu & A2)|(A1 & A2)]; [left|right].
+      + split; [exact A1|]. split; [exists fu; exact A2|].
+        destruct (chain_of_head _ _ _ _ _ A2) as (_ & _ & l' & ->).
+        exists 0%nat. split; reflexivity.
+      + split; [exact A1|]. split; [exact A2|exact A1].
+    - destruct Hmd as [-> | [-> | ->]]; cbn [PrModes.start_offset]; lia.
+    - exact Hsize.
+    - exact H32.
+    - destruct Hmd as [-> | [-> | ->]]; reflexivity.
+    - exact (chain_free_rep s vi0 v0 m rs ch FR Hcf).
+    - exact (dirs_free_rep s vi0 v0 m rs ch FR Hdf).
+    - constructor; try assumption. exact (proj1 Hdh _ Eb).
+    - apply (blk_home_mono s s1 v0 ((length (s_files s1), nf, ch) :: rs) _ _
+               (dir_home_blk s vi0 v0 m rs bl ch _ nf _ FR Hdh Eb)).
+      + rewrite Hd. intros x fu l H. exact H.
+      + intros r' Hr'. exists r'. split; [exact Hr'|apply incl_refl].
+  Qed.
+End Open.
+
+(* ================================================================== 9b. open that creates the file *)
+Section Create.
+  Variable fsz : N.
+
+  (* a rewrite of one directory slot (flush_eff) whose block avoids the FAT and the chains of
+     the set keeps the invariant, for the same set *)
+  Lemma lc_rep_dir_write s s' vi v m rs e : lc_rep fsz s vi v m rs -> flush_eff v e s s' ->
+    ~ fat_area v (e_block e) -> (forall r, In r rs -> blk_apart v (e_block e) (r_chain r)) ->
+    lc_rep fsz s' vi v m rs.
+  Proof.
+    intros ((F & Hdisj & Hnd) & Hok & Hvolctx & Hinfo & Hndf) Heff Hnfat Hapart.
+    pose proof Heff as ((M1 & _ & M3 & _ & M6 & _) & Hnf' & Hc' & Hwf' & _).
+    split; [split; [|split; assumption]|split; [|split; [|split; [exact Hinfo|rewrite M3; exact Hndf]]]].
+    - apply (Forall2_impl_in _ _ _ _ F). intros [[h2 w2] af2] [[fi2 f2] ch2] _ Hin R2.
+      unfold member_rep in *. cbn [m_wr m_handle m_af r_chain fst snd] in *.
+      exact (file_rep_flush fsz w2 h2 s s' af2 fi2 f2 vi v ch2 e R2 Heff Hnfat Hinfo (Hapart _ Hin)).
+    - rewrite Forall_forall in *. intros r Hr. destruct (Hok r Hr) as [S1 S2]. split; [exact S1|].
+      apply (blk_home_mono s s' v rs rs _ S2).
+      + exact (flush_eff_chains v e s s' Heff Hnfat Hinfo).
+      + intros r' Hr'. exists r'. split; [exact Hr'|apply incl_refl].
+    - apply (lc_vol_move fsz s s' vi v Hvolctx); try assumption. rewrite M6. exact (proj1 Hvolctx).
+  Qed.
+
+  (* 3''. C01, open that creates: the name is not in the directory, the mode is one of the three
+     creating modes, and the directory has a free slot (it does not have to grow): the call
+     returns the next handle, and the invariant holds for the set plus a new member with no
+     bytes at offset 0, open for writing.  The directory lives apart (dir_home). *)
+  Theorem C01_open_creates vid s m d di dd vi v name sfn md bl blk off sl0 :
+    lc_inv fsz vid s m ->
+    PrModes.resolves s d di dd vi v -> d_vol dd = vid ->
+    is_full (s_files s) (s_maxf s) = false ->
+    sfn_of_str name = Some sfn -> length sfn = 11%nat -> PrModes.dot_name sfn = false ->
+    dir_blocks (s_disk s) v (d_cluster dd) = Some bl ->
+    find (t_matches sfn) (live_in_blocks (s_disk s) bl) = None ->
+    creating md = true ->
+    find nv (slots_of (s_disk s) bl) = Some (blk, off, sl0) ->
+    dir_home s v m bl [] ->
+    PrHandles.no_file (s_next_id s) s ->
+    exists s', run_op (OpenFile d name md) s = (Ok (RHandle (s_next_id s)), s') /\
+      lc_inv fsz vid s' ((s_next_id s, true, ([], 0)) :: m).
+  Proof.
+    intros (vi0 & v0 & rs & LR & Evid) Hres Hdvol Hfull Hsfn Hlen Hdot Hbl Hnone Hcr Hfree Hdh Hfresh.
+    pose proof LR as (FR & Hok & Hvolctx & Hinfo & Hndf).
+    destruct (lc_vol_same fsz s vi v vi0 v0 d di dd Hvolctx Hres ltac:(congruence)) as [-> ->].
+    pose proof Hvolctx as (Hl & ((Hnf & Hc & Hvi & _) & L & _) & _ & _ & Hwf & _).
+    (* the lookup *)
+    destruct (C06_find vi0 v0 (d_cluster dd) sfn s bl Hvi (fl_vol _ _ L) Hnf Hc Hbl) as (s1 & Hlook & Hro).
+    rewrite Hnone in Hlook.
+    pose proof Hro as (Hd & Hc1 & Hnf1 & Hm). pose proof Hm as (M1 & M2 & M3 & M4 & _ & M6 & _).
+    pose proof (lc_rep_ro fsz s s1 vi0 v0 m rs LR Hro) as LR1.
+    (* the new slot *)
+    pose proof (find_some _ _ Hfree) as [Hin _]. apply In_slots_of in Hin.
+    destruct Hin as (b & i & Hb & Hi & Et). injection Et as -> -> _.
+    assert (Hvi1 : nth_error (s_vols s1) vi0 = Some v0) by (rewrite M1; exact Hvi).
+    destruct (write_new_directory_entry_spec vi0 v0 (d_cluster dd) sfn 0 CL_EMPTY s1 bl b (i * 32) sl0
+                Hvi1 (fl_vol _ _ L) Hnf1 Hc1 ltac:(rewrite Hd; exact Hbl) ltac:(rewrite Hd; exact Hfree) Hlen
+                ltac:(rewrite Hd; apply Hwf))
+      as (s2 & Hwrite & Hd2 & _ & _ & _ & Hc2 & Hnf2 & _ & Htab2 & _).
+    set (en := mk_dirent sfn (clock_ts (s_clock s1)) (clock_ts (s_clock s1)) 0 CL_EMPTY 0 b (i * 32)) in *.
+    pose proof Htab2 as (T1 & T2 & T3 & T4 & T5 & _).
+    set (nf := mk_fileinfo (s_next_id s) (d_vol dd) 0 CL_EMPTY 0 ReadWriteCreate en false).
+    (* the run *)
+    assert (Hopen : open_file_in_dir d name md s =
+                    (Ok (s_next_id s), set_s_files (set_s_next_id s2 ((s_next_id s2 + 1) mod U32))
+                                                   (s_files s2 ++ [nf]))).
+    { pose proof (resolves_dir_move s s1 d di dd vi0 v0 Hres M6 M2 M1) as (_ & _ & _ & H3' & _).
+      unfold open_file_in_dir. PrModes.open_prefix Hres Hfull Hsfn.
+      unfold PrModes.dot_name in Hdot. rewrite Hdot.
+      unfold bind at 1. unfold try. rewrite Hlook. rewrite Hcr, !PrModes.bind_ret.
+      assert (Hmv : solve_mode_variant md false = ReadWriteCreate) by (destruct md; try discriminate; reflexivity).
+      cbn [negb]. rewrite Hmv.
+      rewrite (bind_ok _ _ _ _ _ H3'), (bind_ok _ _ _ _ _ Hwrite), (bind_ok _ _ _ _ _ (generate_spec s2)).
+      unfold bind, push_file, modify, ret. rewrite T4, M4. reflexivity. }
+    eexists. split; [unfold run_op; cbn [step]; exact (lift_ok' RHandle _ _ _ _ Hopen)|].
+    exists vi0, v0, ((length (s_files s2), nf, []) :: rs). split; [|exact Evid].
+    (* the directory block is rewritten: a flush_eff *)
+    assert (Hblk : blk_home s v0 ((length (s_files s2), nf, []) :: rs) b)
+      by exact (dir_home_blk fsz s vi0 v0 m rs bl [] _ nf b FR Hdh Hb).
+    assert (Heff : flush_eff v0 en s1 s2).
+    { split; [exact Htab2|]. split; [exact Hnf2|]. split; [exact Hc2|]. split.
+      - intros j. rewrite Hd2, Hd. destruct (N.eq_dec j b) as [->|Hne].
+        + rewrite disk_get_set_same, set_bytes_length; [apply Hwf|].
+          rewrite (ser_bytes_length (v_fat32 v0) en Hlen), (Hwf b). clear - Hi. lia.
+        + rewrite disk_get_set_other by congruence. apply Hwf.
+      - intros j Hj _. rewrite Hd2. apply disk_get_set_other. cbn [e_block en] in Hj. congruence. }
+    assert (Hnfat : ~ fat_area v0 (e_block en)) by exact (proj1 Hdh b Hb).
+    assert (LR2 : lc_rep fsz s2 vi0 v0 m rs).
+    { apply (lc_rep_dir_write s1 s2 vi0 v0 m rs en LR1 Heff Hnfat). intros r Hr.
+      exact (blk_home_apart s v0 _ b Hblk r (or_intror Hr) (files_rep_ranges fsz s vi0 v0 m rs FR r Hr)). }
+    pose proof (lc_rep_push fsz s2 vi0 v0 m rs ((s_next_id s2 + 1) mod U32) nf true [] LR2) as P.
+    cbn [f_id f_vol f_offset f_entry f_mode nf e_size en length] in P. apply P; clear P.
+    - intros g Hg. rewrite T3, M3 in Hg. exact (Hfresh g Hg).
+    - symmetry. exact (PrModes.resolves_vol_id _ _ _ _ _ _ Hres).
+    - right. split; [reflexivity|]. split; reflexivity.
+    - reflexivity.
+    - cbn. lia.
+    - reflexivity.
+    - reflexivity.
+    - intros r _ y [].
+    - intros r _ c0 fu dch _ _ y _ [].
+    - constructor; cbn [en e_ctime e_mtime e_name e_offset e_block].
+      + apply ts_cal_ok, clock_ts_cal.
+      + apply ts_cal_ok, clock_ts_cal.
+      + exact Hlen.
+      + clear - Hi. lia.
+      + exact Hnfat.
+    - cbn [en e_block].
+      apply (blk_home_mono s s2 v0 _ _ _ Hblk).
+      + intros x fu l H. apply (flush_eff_chains v0 en s1 s2 Heff Hnfat Hinfo). rewrite Hd. exact H.
+      + intros r' Hr'. exists r'. split; [exact Hr'|apply incl_refl].
+  Qed.
+End Create.
+
+(* ================================================================== 9c. open that truncates the file *)
+Lemma fat_updates_len v : forall l d, blocks_wf d ->
+  Forall (fun p : N * block => length (snd p) = 512%nat) (PrChain.fat_updates v d l).
+Proof.
+  induction l as [|[y x] tl IH]; intros d Hwf; [constructor|].
+  cbn [PrChain.fat_updates]. cbv zeta.
+  assert (Hw : Forall (fun p : N * block => length (snd p) = 512%nat)
+                 (map (fun i => (i, fat_put_block v (disk_get d (fat_sector v 0 y)) y x)) (fat_writes v y))).
+  { apply Forall_map_const. intros i. cbn [snd]. apply fat_put_block_length. apply Hwf. }
+  apply Forall_app. split; [exact Hw|]. apply IH. apply blocks_wf_apply; assumption.
+Qed.
+
+Section Truncate.
+  Variable fsz : N.
+
+  (* an effect on the volume that does not go through a record of the set: the FAT entries of
+     the chain ch (and nothing a chain disjoint from ch depends on) change, the volume record is
+     re-booked *)
+  Record vol_eff (vi : nat) (v : vol) (ch : list N) (s s' : st) (v' : vol) : Prop := mk_vol_eff {
+    ve_vol : exists nf fc, v' = vol_rebook v nf fc;
+    ve_vols : s_vols s' = list_set (s_vols s) vi v';
+    ve_files : s_files s' = s_files s;
+    ve_lock : s_lock s' = s_lock s;
+    ve_pre : alloc_pre s' vi v' fsz;
+    ve_wf : blocks_wf (s_disk s');
+    ve_others : forall x fu l, chain_of (s_disk s) v x fu = Some l -> disjoint l ch ->
+                chain_of (s_disk s') v x fu = Some l /\
+                file_bytes (s_disk s') v l = file_bytes (s_disk s) v l
+  }.
+
+  Lemma lc_rep_vol_eff s s' vi v v' m rs ch : lc_rep fsz s vi v m rs -> vol_eff vi v ch s s' v' ->
+    (forall r, In r rs -> disjoint (r_chain r) ch) ->
+    (forall r, In r rs -> forall c0 fu dch, In (e_block (f_entry (snd (fst r)))) (cluster_blocks v c0) ->
+       chain_of (s_disk s) v c0 fu = Some dch -> disjoint dch ch) ->
+    lc_rep fsz s' vi v' m rs.
+  Proof.
+    intros ((F & Hdisj & Hnd) & Hok & Hvolctx & Hinfo & Hndf) [(nf & fc & ->) Hvols Hfiles Hlock Hpre' Hwf' Hoth]
+           Hdis Hdirs.
+    pose proof Hvolctx as (Hl & ((_ & _ & Hvi & _) & _) & Hfit & Hspc & _ & Hfind).
+    split; [split; [|split; assumption]|split; [|split; [|split; [exact Hinfo|rewrite Hfiles; exact Hndf]]]].
+    - apply (Forall2_impl_in _ _ _ _ F). intros [[h2 w2] af2] [[fi2 f2] ch2] _ Hin R2.
+      unfold member_rep in *. cbn [m_wr m_handle m_af r_chain fst snd] in *.
+      pose proof (fr_res _ _ _ _ _ _ _ _ _ _ R2) as (Q1 & Q2 & Q3).
+      pose proof (Hdis _ Hin) as Hd2. cbn [r_chain snd] in Hd2.
+      apply (file_rep_transport fsz w2 h2 s s' af2 fi2 f2 vi v ch2 nf fc R2); try assumption; try congruence.
+      + intros fu _ H. exact (proj1 (Hoth _ fu ch2 H Hd2)).
+      + destruct (fr_chain _ _ _ _ _ _ _ _ _ _ R2) as [(_ & (fu & A2) & _)|(_ & -> & _)]; [|reflexivity].
+        exact (proj2 (Hoth _ fu ch2 A2 Hd2)).
+    - rewrite Forall_forall in *. intros r Hr. destruct (Hok r Hr) as [S1 S2].
+      split; [apply slot_ok_rebook; exact S1|].
+      destruct S2 as [S2|(c0 & fu & dch & Hb & Hch & Hd)]; [left; exact S2|right].
+      exists c0, fu, dch. split; [exact Hb|]. split; [|exact Hd].
+      rewrite chain_of_rebook. exact (proj1 (Hoth c0 fu dch Hch (Hdirs r Hr c0 fu dch Hb Hch))).
+    - split; [congruence|]. split; [exact Hpre'|]. split; [exact Hfit|]. split; [exact Hspc|].
+      split; [exact Hwf'|]. rewrite Hvols. apply (find_vol_set _ _ _ v); [exact Hfind|exact Hvi|reflexivity].
+  Qed.
+
+  (* truncate_cluster_chain on the chain of a directory entry: always Ok, with a vol_eff; the
+     chain that remains is the first cluster alone *)
+  Lemma trunc_run s vi v e ch : lc_vol fsz s vi v -> entry_chain (s_disk s) v e ch ->
+    exists s' v' ch', truncate_cluster_chain vi (e_cluster e) s = (Ok tt, s') /\
+      vol_eff vi v ch s s' v' /\ PrChain.same_tabs s s' /\ incl ch' ch /\
+      ((2 <= e_cluster e /\ ch' = [e_cluster e] /\ exists fu, chain_of (s_disk s') v (e_cluster e) fu = Some ch') \/
+       (e_cluster e < 2 /\ ch' = [])).
+  Proof.
+    intros (Hl & Hpre & Hfit & Hspc & Hwf & Hfind) [(A1 & fu & A2)|(A1 & ->)].
+    2:{ exists s, v, []. split; [exact (PrChain.truncate_reserved vi _ s A1)|].
+        pose proof Hpre as ((_ & _ & Hvi & _) & _).
+        split; [|split; [apply PrChain.same_tabs_refl|split; [apply incl_refl|right; split; [exact A1|reflexivity]]]].
+        constructor; try assumption; try reflexivity.
+        - exists (v_next_free v), (v_free v). apply vol_rebook_self.
+        - symmetry. apply list_set_same. exact Hvi.
+        - intros x fu l H _. split; [exact H|reflexivity]. }
+    pose proof Hpre as (Hst & L & Hh).
+    destruct (chain_of_head _ _ _ _ _ A2) as (_ & C2 & rest & ->).
+    set (c := e_cluster e) in *.
+    destruct (PrChain.truncate_cluster_chain_effect vi v fsz s c rest fu L Hst A2) as (s' & Hrun & Heff).
+    pose proof (PrChain.te_tabs _ _ _ _ _ _ _ Heff) as Htabs.
+    pose proof Htabs as (_ & T2 & _ & _ & T5 & _).
+    assert (Hother : forall y, 2 <= y -> y < v_clusters v + 2 -> ~ In y (c :: rest) ->
+              fat_get (s_disk s') v 0 y = fat_get (s_disk s) v 0 y).
+    { intros y Y1 Y2 Hy. apply (PrChain.te_other _ _ _ _ _ _ _ Heff).
+      - exact (layout_sector v fsz y L Y2).
+      - intros Hin. apply Hy. right. exact Hin.
+      - intros ->. exfalso. apply Hy. left. reflexivity. }
+    exists s', (PrChain.trunc_vol v rest), [c].
+    split; [exact Hrun|]. split; [|split; [exact Htabs|split]].
+    - constructor.
+      + destruct rest as [|n tl]; [exists (v_next_free v), (v_free v); apply vol_rebook_self|].
+        eexists. eexists. reflexivity.
+      + exact (PrChain.te_vols _ _ _ _ _ _ _ Heff).
+      + exact T2.
+      + exact T5.
+      + exact (PrChain.truncate_cluster_chain_keeps_pre vi v fsz s c rest fu s' Hpre A2 Hrun).
+      + rewrite (tr_ext_disk _ _ _ (PrChain.te_trace _ _ _ _ _ _ _ Heff)).
+        apply blocks_wf_apply; [exact Hwf|]. apply fat_updates_len. exact Hwf.
+      + intros x fu' l Hl' Hdis.
+        pose proof (chain_of_range _ _ _ _ _ Hl') as Rg. rewrite Forall_forall in Rg.
+        split.
+        * apply (PrChain.chain_of_frame _ _ _ _ _ _ Hl'). intros y Hy.
+          exact (Hother y (proj1 (Rg y Hy)) (proj2 (Rg y Hy)) (Hdis y Hy)).
+        * apply file_bytes_frame. intros j Hj. unfold data_blocks in Hj. apply in_flat_map in Hj.
+          destruct Hj as (y & Hy & Hj). destruct (In_cluster_blocks _ _ _ Hj) as (q & _ & ->).
+          apply (PrChain.te_frame _ _ _ _ _ _ _ Heff). intros copy k Hk E.
+          exact (fat_sector_not_data v fsz copy k y q L Hk (proj1 (Rg y Hy)) (eq_sym E)).
+    - intros y [<-|[]]. left. reflexivity.
+    - left. split; [exact A1|]. split; [reflexivity|].
+      destruct rest as [|n tl].
+      + exists fu. apply (PrChain.chain_of_frame _ _ _ _ _ _ A2). intros y [<-|[]].
+        apply (PrChain.te_other _ _ _ _ _ _ _ Heff); [exact (layout_sector v fsz c L C2)|intros []|reflexivity].
+      + exists 1%nat. apply chain_single; [exact A1|exact C2|].
+        rewrite fat_entry_get. apply (PrChain.te_head _ _ _ _ _ _ _ Heff). discriminate.
+  Qed.
+End Truncate.
+
+(* ================================================================== 10. life-cycle histories *)
+(* the calls of a history.  LOpen carries two ghost components that the SPEC side needs and the
+   guard ties to the concrete state: the handle the call will return, and the contents of the
+   file on the medium at that moment (None: no such file) *)
+Inductive lop :=
+  | LOp (h : N) (a : aop)            (* read / write / seek / length / offset / eof on handle h *)
+  | LFlush (h : N)
+  | LClose (h : N)
+  | LOpen (d : N) (name : list N) (md : mode) (hn : N) (ob : option (list N)).
+
+Definition lcop (o : lop) : op :=
+  match o with
+  | LOp h a => cop h a | LFlush h => Flush h | LClose h => CloseFile h
+  | LOpen d name md _ _ => OpenFile d name md
+  end.
+
+Fixpoint lrun (ops : list lop) (s : st) : list (outcome res) * st :=
+  match ops with
+  | [] => ([], s)
+  | o :: r => let '(x, s1) := run_op (lcop o) s in
+              let '(os, s2) := lrun r s1 in (x :: os, s2)
+  end.
+
+(* SPEC side: the set of byte-array models.  An open adds a model holding the file's contents
+   (nothing, for the truncating modes and for a file that is created), positioned at 0 or - the
+   append modes - at the end; flush changes nothing; close drops the model *)
+Definition truncating (md : mode) : bool :=
+  match md with ReadWriteTruncate | ReadWriteCreateOrTruncate => true | _ => false end.
+Definition appending (md : mode) : bool :=
+  match md with ReadWriteAppend | ReadWriteCreateOrAppend => true | _ => false end.
+Definition open_model (md : mode) (ob : option (list N)) : afile :=
+  let bytes := match ob with Some b => if truncating md then [] else b | None => [] end in
+  (bytes, if appending md then N.of_nat (length bytes) else 0).
+
+Definition alstep (o : lop) (m : list member) : option (outcome res * list member) :=
+  match o with
+  | LOp h a => match m_find h m with
+               | Some x => let '(r, af1) := astep (m_wr x) a (m_af x) in Some (r, upd_member h af1 m)
+               | None => None
+               end
+  | LFlush h => Some (Ok RUnit, m)
+  | LClose h => Some (Ok RUnit, remove_member h m)
+  | LOpen d name md hn ob => Some (Ok (RHandle hn), (hn, negb (mode_eqb md ReadOnly), open_model md ob) :: m)
+  end.
+
+Fixpoint alrun (ops : list lop) (m : list member) : list (outcome res) * list member :=
+  match ops with
+  | [] => ([], m)
+  | o :: r => match alstep o m with
+              | Some (x, m1) => let '(os, m2) := alrun r m1 in (x :: os, m2)
+              | None => ([], m)
+              end
+  end.
+
+(* what an OpenFile call must find on the medium to be covered: an existing file that is not
+   open, mode ReadOnly / ReadWriteAppend / ReadWriteCreateOrAppend, with the hypotheses of
+   C01_open_adds; `bytes` are the first e_size bytes of its chain *)
+Definition open_covered (fsz vid : N) (s : st) (m : list member) (d : N) (name : list N) (md : mode)
+                        (ob : option (list N)) : Prop :=
+  exists di dd vi v sfn bl t ch,
+    PrModes.resolves s d di dd vi v /\ d_vol dd = vid /\
+    is_full (s_files s) (s_maxf s) = false /\
+    sfn_of_str name = Some sfn /\ PrModes.dot_name sfn = false /\
+    dir_blocks (s_disk s) v (d_cluster dd) = Some bl /\
+    find (t_matches sfn) (live_in_blocks (s_disk s) bl) = Some t /\
+    let e := t_entry (v_fat32 v) t in
+    PrModes.open_refusal md (Ok e) (PrModes.is_open s (d_vol dd) e) = None /\
+    (md = ReadOnly \/ md = ReadWriteAppend \/ md = ReadWriteCreateOrAppend) /\
+    entry_chain (s_disk s) v e ch /\
+    e_size e <= N.of_nat (length ch) * bytes_per_cluster v /\ e_size e < U32 /\
+    chain_free s v m ch /\ dirs_free s v m ch /\ dir_home s v m bl ch /\
+    PrHandles.no_file (s_next_id s) s /\
+    ob = Some (firstn (N.to_nat (e_size e)) (file_bytes (s_disk s) v ch)).
+
+(* the guard of a call: its handle is open at that moment; an open is covered *)
+Definition lguard (fsz vid : N) (o : lop) (s : st) (m : list member) : Prop :=
+  match o with
+  | LOp h _ | LFlush h | LClose h => In h (map m_handle m)
+  | LOpen d name md hn ob => hn = s_next_id s /\ open_covered fsz vid s m d name md ob
+  end.
+
+Fixpoint lguards (fsz vid : N) (ops : list lop) (s : st) (m : list member) : Prop :=
+  match ops with
+  | [] => True
+  | o :: r => lguard fsz vid o s m /\
+              lguards fsz vid r (snd (run_op (lcop o) s))
+                      (match alstep o m with Some (_, m1) => m1 | None => m end)
+  end.
+
+Section LHistory.
+  Variable fsz vid : N.
+
+  Lemma lc_inv_nodup s m : lc_inv fsz vid s m -> NoDup (map m_handle m).
+  Proof. intros H. exact (files_inv_nodup fsz s m (lc_inv_files_inv fsz vid s m H)). Qed.
+
+  (* one call of a history: unless a write runs out of clusters, the result is the SPEC side's
+     and the invariant holds for the SPEC side's next set *)
+  Theorem C01_lifecycle_step o s m : lc_inv fsz vid s m -> lguard fsz vid o s m ->
+    exists x s', run_op (lcop o) s = (x, s') /\
+      (space_err x = false -> exists m1, alstep o m = Some (x, m1) /\ lc_inv fsz vid s' m1).
+  Proof.
+    intros Hinv Hg. destruct o as [h a|h|h|d name md hn ob]; cbn [lguard lcop alstep] in *.
+    - (* an operation of PrMulti *)
+      destruct Hinv as (vi & v & rs & LR & Evid).
+      destruct (m_find_member h m Hg) as (w & af & Hf & Hm).
+      destruct (In_nth_error _ _ Hm) as (i0 & Hi0).
+      destruct (lc_step fsz s vi v m rs i0 h w af a LR Hi0)
+        as (x & s' & af1 & v' & rs' & Hrun & Hrel & LR' & Ev' & _).
+      exists x, s'. split; [exact Hrun|]. intros Hsp.
+      destruct (astep_rel_no_space w a af x af1 Hrel Hsp) as (-> & ->).
+      rewrite Hf. cbn [m_wr m_af fst snd]. destruct (astep w a af) as [x1 af1'] eqn:Ea. cbn [fst snd] in *.
+      exists (upd_member h af1' m). split; [reflexivity|].
+      exists vi, v', rs'. split; [|congruence].
+      rewrite (upd_member_list_set h af1' m i0 w af (proj2 (proj2 (proj1 LR))) Hi0). exact LR'.
+    - (* flush *)
+      destruct (C01_flush_keeps fsz vid s m h Hinv Hg) as (s' & Hrun & Hinv').
+      exists (Ok RUnit), s'. split; [exact Hrun|]. intros _. exists m. split; [reflexivity|exact Hinv'].
+    - (* close *)
+      destruct (C01_close_removes fsz vid s m h Hinv Hg) as (s' & Hrun & Hinv').
+      exists (Ok RUnit), s'. split; [exact Hrun|]. intros _.
+      exists (remove_member h m). split; [reflexivity|exact Hinv'].
+    - (* open *)
+      destruct Hg as (-> & di & dd & vi & v & sfn & bl & t & ch & G1 & G2 & G3 & G4 & G5 & G6 & G7 & G8 & G9 &
+                      G10 & G11 & G12 & G13 & G14 & G15 & G16 & ->).
+      destruct (C01_open_adds fsz vid s m d di dd vi v name sfn md bl t ch Hinv G1 G2 G3 G4 G5 G6 G7 G8 G9
+                  G10 G11 G12 G13 G14 G15 G16) as (s' & Hrun & Hinv').
+      exists (Ok (RHandle (s_next_id s))), s'. split; [exact Hrun|]. intros _.
+      eexists. split; [reflexivity|].
+      assert (Em : open_model md (Some (firstn (N.to_nat (e_size (t_entry (v_fat32 v) t)))
+                                               (file_bytes (s_disk s) v ch)))
+                   = (firstn (N.to_nat (e_size (t_entry (v_fat32 v) t))) (file_bytes (s_disk s) v ch),
+                      PrModes.start_offset md (t_entry (v_fat32 v) t))).
+      { unfold open_model.
+        assert (Hlen : N.of_nat (length (firstn (N.to_nat (e_size (t_entry (v_fat32 v) t)))
+                                               (file_bytes (s_disk s) v ch))) = e_size (t_entry (v_fat32 v) t)).
+        { destruct Hinv as (vi0 & v0 & rs & (_ & _ & Hvolctx & _) & Evid).
+          destruct (lc_vol_same fsz s vi v vi0 v0 d di dd Hvolctx G1 ltac:(congruence)) as [-> ->].
+          destruct Hvolctx as (_ & _ & _ & _ & Hwf & _).
+          rewrite firstn_length, (file_bytes_length _ _ _ Hwf).
+          unfold bytes_per_cluster in G11. clear - G11. lia. }
+        destruct G9 as [-> | [-> | ->]]; cbn [truncating appending PrModes.start_offset]; try rewrite Hlen; reflexivity. }
+      rewrite Em. exact Hinv'.
+  Qed.
+
+  (* 4. C01 for life-cycle histories: for every finite sequence of opens (as covered), reads,
+     writes, seeks, queries, flushes and closes in which every call is on a handle that is open
+     at that moment (lguards) - as long as no write runs out of clusters - every call returns
+     exactly what the SPEC side returns, and the invariant holds at the end for the SPEC side's
+     final set of byte arrays *)
+  Theorem C01_lifecycle_history : forall ops s m, lc_inv fsz vid s m -> lguards fsz vid ops s m ->
+    existsb space_err (fst (lrun ops s)) = false ->
+    fst (lrun ops s) = fst (alrun ops m) /\ lc_inv fsz vid (snd (lrun ops s)) (snd (alrun ops m)).
+  Proof.
+    induction ops as [|o r IH]; intros s m Hinv Hg Hsp; [split; [reflexivity|exact Hinv]|].
+    cbn [lguards] in Hg. destruct Hg as [Hg1 Hg2].
+    destruct (C01_lifecycle_step o s m Hinv Hg1) as (x & s1 & Hrun & Hstep).
+    cbn [lrun alrun] in *. rewrite Hrun in *. cbn [snd] in Hg2.
+    destruct (lrun r s1) as [os s2] eqn:Er. cbn [fst snd existsb] in Hsp.
+    apply orb_false_iff in Hsp. destruct Hsp as [Hsp1 Hsp2].
+    destruct (Hstep Hsp1) as (m1 & Ea & Hinv1). rewrite Ea in *.
+    specialize (IH s1 m1 Hinv1 Hg2). rewrite Er in IH. cbn [fst snd] in IH.
+    destruct (IH Hsp2) as (E1 & E2).
+    destruct (alrun r m1) as [os' m2]. cbn [fst snd] in *.
+    split; [f_equal; exact E1|exact E2].
+  Qed.
+End LHistory.
+
+(* ---- histories without opens: the guard is a property of the calls alone ---- *)
+(* every call is on a handle of the set that has not been closed before *)
+Fixpoint lwf (ops : list lop) (hs : list N) : Prop :=
+  match ops with
+  | [] => True
+  | LOp h _ :: r => In h hs /\ lwf r hs
+  | LFlush h :: r => In h hs /\ lwf r hs
+  | LClose h :: r => In h hs /\ lwf r (filter (fun x => negb (x =? h)) hs)
+  | LOpen _ _ _ _ _ :: _ => False
+  end.
+
+Lemma remove_member_map h m :
+  map m_handle (remove_member h m) = filter (fun x => negb (x =? h)) (map m_handle m).
+Proof.
+  induction m as [|x t IH]; [reflexivity|]. cbn [remove_member filter map].
+  destruct (negb (m_handle x =? h)); cbn [map]; fold (remove_member h t); rewrite IH; reflexivity.
+Qed.
+
+Lemma lwf_guards fsz vid : forall ops m s, lwf ops (map m_handle m) -> lguards fsz vid ops s m.
+Proof.
+  induction ops as [|o r IH]; intros m s H; [exact I|].
+  destruct o as [h a|h|h|d name md hn ob]; cbn [lwf lguards lguard alstep] in *; try contradiction;
+    destruct H as [H1 H2]; (split; [exact H1|]).
+  - destruct (m_find_member h m H1) as (w & af & -> & _). cbn [m_wr m_af fst snd].
+    destruct (astep w a af) as [x af1]. apply IH. rewrite upd_member_handles. exact H2.
+  - apply IH. exact H2.
+  - apply IH. rewrite remove_member_map. exact H2.
+Qed.
+
+Corollary C01_lifecycle_history_closed fsz vid ops s m :
+  lc_inv fsz vid s m -> lwf ops (map m_handle m) ->
+  existsb space_err (fst (lrun ops s)) = false ->
+  fst (lrun ops s) = fst (alrun ops m) /\ lc_inv fsz vid (snd (lrun ops s)) (snd (alrun ops m)).
+Proof.
+  intros Hinv Hwf. apply (C01_lifecycle_history fsz vid ops s m Hinv). apply lwf_guards. exact Hwf.
+Qed.
+
+(* ================================================================== 11. close, then open again *)
+Section Reopen.
+  Variable fsz : N.
+
+  (* from the representation back to the state-level conditions *)
+  Lemma chain_free_of_rep s vi v m rs l : files_rep fsz s vi v m rs ->
+    (forall r, In r rs -> disjoint l (r_chain r)) -> chain_free s v m l.
+  Proof.
+    intros (F & _) H h2 fi2 f2 fu ch2 Hin Hres Hch.
+    destruct (m_find_member h2 m Hin) as (w2 & af2 & _ & Hm).
+    destruct (In_nth_error _ _ Hm) as (i & Hi).
+    destruct (Forall2_nth_l _ _ _ F i _ Hi) as (((fi' & f') & ch') & Hr & R).
+    unfold member_rep in R. cbn [m_wr m_handle m_af r_chain fst snd] in R.
+    destruct (resolves_det _ _ _ _ _ _ Hres (fr_res _ _ _ _ _ _ _ _ _ _ R)) as [-> ->].
+    destruct (fr_chain _ _ _ _ _ _ _ _ _ _ R) as [(_ & (fu' & A2) & _)|(A1 & _)].
+    - rewrite (chain_of_det _ _ _ _ _ _ _ Hch A2). exact (H _ (nth_error_In _ _ Hr)).
+    - exfalso. destruct (chain_of_head _ _ _ _ _ Hch) as (B & _). clear - A1 B. lia.
+  Qed.
+
+  Lemma dirs_free_of_rep s vi v m rs l : files_rep fsz s vi v m rs ->
+    (forall r, In r rs -> forall c0 fu dch, In (e_block (f_entry (snd (fst r)))) (cluster_blocks v c0) ->
+       chain_of (s_disk s) v c0 fu = Some dch -> disjoint dch l) -> dirs_free s v m l.
+  Proof.
+    intros (F & _) H h2 fi2 f2 c0 fu dch Hin Hres Hb Hch.
+    destruct (m_find_member h2 m Hin) as (w2 & af2 & _ & Hm).
+    destruct (In_nth_error _ _ Hm) as (i & Hi).
+    destruct (Forall2_nth_l _ _ _ F i _ Hi) as (((fi' & f') & ch') & Hr & R).
+    unfold member_rep in R. cbn [m_wr m_handle m_af r_chain fst snd] in R.
+    destruct (resolves_det _ _ _ _ _ _ Hres (fr_res _ _ _ _ _ _ _ _ _ _ R)) as [-> ->].
+    exact (H _ (nth_error_In _ _ Hr) c0 fu dch Hb Hch).
+  Qed.
+
+  (* the chain from the cluster that holds a member's slot avoids the chains of the set *)
+  Lemma rec_ok_dirs s v rs r r0 : rec_ok s v rs r -> In r0 rs ->
+    forall c0 fu dch, In (e_block (f_entry (snd (fst r)))) (cluster_blocks v c0) ->
+      chain_of (s_disk s) v c0 fu = Some dch -> disjoint dch (r_chain r0).
+  Proof.
+    intros (_ & [H|(c1 & fu1 & dch1 & Hb1 & Hch1 & Hd)]) Hr0 c0 fu dch Hb Hch.
+    - exfalso. destruct (chain_of_head _ _ _ _ _ Hch) as (A & _). exact (H c0 A Hb).
+    - destruct (blk_cluster_unique _ _ _ _ _ _ _ _ _ Hb Hb1 Hch Hch1) as [_ ->]. exact (Hd r0 Hr0).
+  Qed.
+
+  (* the frame of a flush, read backwards *)
+  Lemma flush_eff_chains_back v e s s' : flush_eff v e s s' -> ~ fat_area v (e_block e) -> info_ok v ->
+    forall x fu l, chain_of (s_disk s') v x fu = Some l -> chain_of (s_disk s) v x fu = Some l.
+  Proof.
+    intros (_ & _ & _ & _ & Hfr) Hnfat Hinfo x fu l H. rewrite <- H. apply chain_of_ext.
+    intros j Hj. symmetry. apply Hfr.
+    - intros ->. contradiction.
+    - intros E ->. exact (proj1 (Hinfo E) Hj).
+  Qed.
+
+  (* C01, re-open: a member h that has been written to (dirty) is closed; its slot is the one
+     the lookup of its name finds in the directory of handle d.  Then, in the state after the
+     close, an open of that name through d in a keep mode is COVERED (open_covered), and the
+     contents it finds on the medium are exactly the bytes the byte-array model of h held when
+     it was closed.  (By C02_flush_then_lookup: the entry found again carries the flushed size
+     and first cluster; the chain and its bytes are untouched by the flush.) *)
+  Theorem C01_reopen_covered vid s m h w bytes off fi f d di dd vi v name md bl sl0 :
+    lc_inv fsz vid s m -> In (h, w, (bytes, off)) m -> resolves s h fi f -> f_dirty f = true ->
+    let e := f_entry f in
+    PrModes.resolves s d di dd vi v -> d_vol dd = vid ->
+    sfn_of_str name = Some (e_name e) -> PrModes.dot_name (e_name e) = false ->
+    dir_blocks (s_disk s) v (d_cluster dd) = Some bl ->
+    find (t_matches (e_name e)) (live_in_blocks (s_disk s) bl) = Some (e_block e, e_offset e, sl0) ->
+    dir_home s v m bl [] -> (v_fat32 v = true -> ~ In (v_info v) bl) ->
+    is_directory (e_attr e) = false ->
+    is_read_only (e_attr e) && negb (mode_eqb md ReadOnly) = false ->
+    md = ReadOnly \/ md = ReadWriteAppend \/ md = ReadWriteCreateOrAppend ->
+    (* no other record of the file table sits on this slot *)
+    (forall g, In g (s_files s) -> f_id g <> h ->
+       ~ (f_vol g = vid /\ e_block (f_entry g) = e_block e /\ e_offset (f_entry g) = e_offset e)) ->
+    N.of_nat (length (s_files s)) <= s_maxf s ->
+    PrHandles.no_file (s_next_id s) s ->
+    exists s1, run_op (CloseFile h) s = (Ok RUnit, s1) /\ s_next_id s1 = s_next_id s /\
+      lc_inv fsz vid s1 (remove_member h m) /\
+      open_covered fsz vid s1 (remove_member h m) d name md (Some bytes).
+  Proof.
+    intros Hinv Hmem Hres Hdirty e Hdres Hdvol Hsfn Hdot Hbl Hfind Hdh Hinfobl Hnotdir Hro Hmd
+           Huniq Hlim Hfresh.
+    destruct (C01_close_removes fsz vid s m h Hinv
+                (in_map m_handle m (h, w, (bytes, off)) Hmem)) as (s1c & Hrunc & Hinv1).
+    destruct Hinv as (vi0 & v0 & rs & LR & Evid).
+    pose proof LR as (FR & Hok & Hvolctx & Hinfo & Hndf).
+    destruct (lc_vol_same fsz s vi v vi0 v0 d di dd Hvolctx Hdres ltac:(congruence)) as [-> ->].
+    destruct (lc_member fsz s vi0 v0 m rs h LR (in_map m_handle m (h, w, (bytes, off)) Hmem))
+      as (i0 & w' & af' & fi' & f' & ch & Hi0 & Hr0 & R0).
+    destruct (resolves_det _ _ _ _ _ _ Hres (fr_res _ _ _ _ _ _ _ _ _ _ R0)) as [<- <-].
+    pose proof (NoDup_handles_In m _ _ (proj2 (proj2 FR)) Hmem (nth_error_In _ _ Hi0) eq_refl) as Em.
+    injection Em as <- <-.
+    destruct (lc_rep_slot fsz s vi0 v0 m rs LR _ (nth_error_In _ _ Hr0)) as [Hslot Hapart].
+    cbn [fst snd] in Hslot, Hapart.
+    destruct (C01_close_removes_rep fsz s vi0 v0 m rs i0 h w (bytes, off) fi f ch FR Hi0 Hr0 Hslot Hinfo
+                Hapart Hndf) as (sF & s1 & Hrun & Hflush & Heff & Es1 & FR').
+    rewrite Hrunc in Hrun. injection Hrun as ->.
+    pose proof Heff as ((M1 & M2 & M3 & M4 & M6 & _) & HnfF & HcF & HwfF & Hfr).
+    pose proof Hvolctx as (Hl & ((Hnf & Hc & Hvi & _) & L & _) & Hfit & Hspc & Hwf & Hfindv).
+    pose proof R0 as [_ Hvol _ _ _ _ Hchain _ Hsize H32 _ Hbytes _].
+    cbn [fst] in Hbytes. unfold e in *.
+    (* the lookup after the flush *)
+    destruct (info_step_exists s vi0 v0 Hnf Hc Hvi Hwf) as (sI & HinfoI & _).
+    assert (Hnp : e_size (f_entry f) = 0 \/ e_cluster (f_entry f) <> 0).
+    { destruct Hchain as [(A1 & _)|(_ & -> & _)]; [right; clear - A1; lia|left].
+      cbn [length] in Hsize. clear - Hsize. lia. }
+    destruct (C02_flush_then_lookup s h fi f vi0 v0 sI (d_cluster dd) bl sl0 Hnf Hc (fl_vol _ _ L) Hres Hdirty
+                (conj Hvol Hvi) HinfoI Hnp (so_ctime _ _ Hslot) (so_mtime _ _ Hslot) (so_name _ _ Hslot)
+                Hbl Hfind (Hwf _) (so_nfat _ _ Hslot)
+                (fun E => conj (proj1 (Hinfo E)) (Hinfobl E)))
+      as (sF' & HflushF & sL & Hlook & _ & _).
+    rewrite Hflush in HflushF. injection HflushF as <-.
+    assert (HblF : dir_blocks (s_disk sF) v0 (d_cluster dd) = Some bl).
+    { rewrite <- Hbl. apply dir_blocks_ext. intros j Hj. apply Hfr.
+      - intros ->. exact (so_nfat _ _ Hslot Hj).
+      - intros E ->. exact (proj1 (Hinfo E) Hj). }
+    assert (HviF : nth_error (s_vols sF) vi0 = Some v0) by (rewrite M1; exact Hvi).
+    destruct (C06_find vi0 v0 (d_cluster dd) (e_name (f_entry f)) sF bl HviF (fl_vol _ _ L) HnfF HcF HblF)
+      as (sL' & Hlook' & _).
+    rewrite Hlook in Hlook'.
+    destruct (find (t_matches (e_name (f_entry f))) (live_in_blocks (s_disk sF) bl)) as [t|] eqn:HfindF;
+      [|discriminate Hlook'].
+    pose proof (Ok_inj _ _ (f_equal fst Hlook')) as He'. clear Hlook'.
+    (* the fields of the entry found *)
+    assert (Esz : e_size (t_entry (v_fat32 v0) t) = e_size (f_entry f)).
+    { rewrite <- He'. cbn [entry_readback e_size]. apply N.mod_small. exact H32. }
+    assert (Eat : e_attr (t_entry (v_fat32 v0) t) = e_attr (f_entry f)) by (rewrite <- He'; reflexivity).
+    assert (Ecl : e_cluster (t_entry (v_fat32 v0) t) = e_cluster (f_entry f)).
+    { rewrite <- He'. cbn [entry_readback e_cluster]. unfold cl_readback. rewrite Hnotdir, andb_false_r.
+      assert (Hsmall : e_cluster (f_entry f) < if v_fat32 v0 then 4294967296 else 65536).
+      { destruct Hchain as [(_ & (fu & A2) & _)|(A1 & _)]; [|destruct (v_fat32 v0); clear - A1; lia].
+        destruct (chain_of_head _ _ _ _ _ A2) as (_ & B & _). unfold clusters_fit, fat_bad in Hfit.
+        destruct (v_fat32 v0); clear - B Hfit; lia. }
+      destruct (v_fat32 v0); apply N.mod_small; exact Hsmall. }
+    assert (Es1d : s_disk s1 = s_disk sF) by (subst s1; reflexivity).
+    assert (Es1f : s_files s1 = swap_remove (s_files s) fi) by (subst s1; cbn [s_files set_s_files]; rewrite M3; reflexivity).
+    assert (Hsub : forall g, In g (s_files s1) -> In g (s_files s) /\ f_id g <> h).
+    { intros g Hg. rewrite Es1f in Hg. split; [exact (swap_remove_subset _ _ _ Hg)|].
+      intros E. apply (PrHandles.swap_remove_gone f_id (s_files s) fi f Hndf (proj2 (proj2 Hres))).
+      rewrite (resolves_id _ _ _ _ Hres), <- E. apply in_map. exact Hg. }
+    exists s1. split; [exact Hrunc|]. split; [subst s1; cbn [s_next_id set_s_files]; exact M4|].
+    split; [exact Hinv1|].
+    (* disjointness facts about the chain of the closed file, at s *)
+    assert (Hdis0 : forall r', In r' (remove_rep h fi (length (s_files s) - 1) rs) -> disjoint ch (r_chain r')).
+    { intros r' Hr'. unfold remove_rep in Hr'. apply in_map_iff in Hr'. destruct Hr' as (r & <- & Hr).
+      apply filter_In in Hr. destruct Hr as [Hr Hne]. rewrite r_chain_reidx.
+      destruct (In_nth_error _ _ Hr) as (i & Hi).
+      assert (Hii : i0 <> i).
+      { intros E. subst i.
+        assert (Er : Some r = Some (fi, f, ch)) by (transitivity (nth_error rs i0); [symmetry; exact Hi|exact Hr0]).
+        injection Er as ->. cbn [fst snd] in Hne.
+        rewrite (resolves_id _ _ _ _ Hres), N.eqb_refl in Hne. discriminate Hne. }
+      exact (proj1 (proj2 FR) i0 i _ _ Hii Hr0 Hi). }
+    assert (Hrs' : forall r', In r' (remove_rep h fi (length (s_files s) - 1) rs) ->
+              exists r, In r rs /\ snd (fst r') = snd (fst r) /\ r_chain r' = r_chain r).
+    { intros r' Hr'. unfold remove_rep in Hr'. apply in_map_iff in Hr'. destruct Hr' as (r & <- & Hr).
+      apply filter_In in Hr. exists r. split; [exact (proj1 Hr)|]. split; reflexivity. }
+    exists di, dd, vi0, v0, (e_name (f_entry f)), bl, t, ch.
+    split; [subst s1; apply (resolves_dir_move s _ d di dd vi0 v0 Hdres); cbn [s_lock s_dirs s_vols set_s_files]; assumption|].
+    split; [exact Hdvol|].
+    split.
+    { unfold is_full. apply N.leb_gt. rewrite Es1f, swap_remove_length by (apply nth_error_Some; rewrite (proj2 (proj2 Hres)); discriminate).
+      subst s1. cbn [s_maxf set_s_files].
+      destruct (proj1 Heff) as (_ & _ & _ & _ & _ & _ & _ & M9 & _). rewrite M9.
+      assert (H : (fi < length (s_files s))%nat) by (apply nth_error_Some; rewrite (proj2 (proj2 Hres)); discriminate).
+      clear - Hlim H. lia. }
+    split; [exact Hsfn|]. split; [exact Hdot|].
+    split; [rewrite Es1d; exact HblF|].
+    split; [rewrite Es1d; exact HfindF|].
+    cbv zeta.
+    split.
+    { unfold PrModes.open_refusal.
+      replace (PrModes.is_open s1 (d_vol dd) (t_entry (v_fat32 v0) t)) with false.
+      - rewrite Eat, Hro, Hnotdir. destruct Hmd as [-> | [-> | ->]]; reflexivity.
+      - symmetry. unfold PrModes.is_open.
+        destruct (existsb _ (s_files s1)) eqn:Ex; [|reflexivity]. exfalso.
+        apply existsb_exists in Ex. destruct Ex as (g & Hg & Hp).
+        apply andb_true_iff in Hp. destruct Hp as [Hp P3]. apply andb_true_iff in Hp. destruct Hp as [P1 P2].
+        apply N.eqb_eq in P1, P2, P3. rewrite <- He' in P2, P3. cbn [entry_readback e_block e_offset] in P2, P3.
+        destruct (Hsub g Hg) as [G1 G2]. apply (Huniq g G1 G2). rewrite <- Hdvol. auto. }
+    split; [exact Hmd|].
+    split.
+    { unfold entry_chain. rewrite Ecl, Es1d.
+      destruct Hchain as [(A1 & (fu & A2) & _)|(A1 & A2 & _)]; [left|right; split; assumption].
+      split; [exact A1|]. exists fu. exact (flush_eff_chains v0 (f_entry f) s sF Heff (so_nfat _ _ Hslot) Hinfo _ _ _ A2). }
+    split; [rewrite Esz; exact Hsize|]. split; [rewrite Esz; exact H32|].
+    split; [exact (chain_free_of_rep s1 vi0 v0 _ _ ch FR' Hdis0)|].
+    split.
+    { apply (dirs_free_of_rep s1 vi0 v0 _ _ ch FR'). intros r' Hr' c0 fu dch Hb Hch.
+      destruct (Hrs' r' Hr') as (r & Hr & Ef & _). rewrite Ef in Hb. rewrite Es1d in Hch.
+      pose proof (flush_eff_chains_back v0 (f_entry f) s sF Heff (so_nfat _ _ Hslot) Hinfo _ _ _ Hch) as Hch0.
+      rewrite Forall_forall in Hok.
+      exact (rec_ok_dirs s v0 rs r (fi, f, ch) (Hok r Hr) (nth_error_In _ _ Hr0) c0 fu dch Hb Hch0). }
+    split.
+    { destruct Hdh as (D1 & D2). split; [exact D1|].
+      destruct D2 as [D2|(dch & x & fu & Dch & Dbl & _ & Dfree)]; [left; exact D2|right].
+      exists dch, x, fu. rewrite Es1d.
+      split; [exact (flush_eff_chains v0 (f_entry f) s sF Heff (so_nfat _ _ Hslot) Hinfo _ _ _ Dch)|].
+      split; [exact Dbl|].
+      pose proof (chain_free_rep fsz s vi0 v0 m rs dch FR Dfree) as Dall.
+      split; [exact (Dall _ (nth_error_In _ _ Hr0))|].
+      apply (chain_free_of_rep s1 vi0 v0 _ _ dch FR'). intros r' Hr'.
+      destruct (Hrs' r' Hr') as (r & Hr & _ & ->). exact (Dall r Hr). }
+    split.
+    { intros g Hg. subst s1. cbn [s_next_id set_s_files]. rewrite M4. exact (Hfresh g (proj1 (Hsub g Hg))). }
+    f_equal. rewrite Esz, Hbytes. f_equal. rewrite Es1d. symmetry. apply file_bytes_frame. intros j Hj. apply Hfr.
+    - intros ->. exact (Hapart _ (nth_error_In _ _ Hr0) Hj).
+    - intros E ->. unfold data_blocks in Hj. apply in_flat_map in Hj. destruct Hj as (c & Hc0 & Hj).
+      pose proof (file_rep_chain_range fsz _ _ _ _ _ _ _ _ _ R0) as Rg. rewrite Forall_forall in Rg.
+      exact (proj2 (Hinfo E) c (proj1 (Rg c Hc0)) Hj).
+  Qed.
+End Reopen.
+
+(* ... so closing a written file and opening it again gives a byte-array model with the same
+   bytes, positioned at 0 (at the end for the append modes) *)
+Corollary C01_close_reopen fsz vid s m h w bytes off fi f d di dd vi v name md bl sl0 :
+  lc_inv fsz vid s m -> In (h, w, (bytes, off)) m -> resolves s h fi f -> f_dirty f = true ->
+  let e := f_entry f in
+  PrModes.resolves s d di dd vi v -> d_vol dd = vid ->
+  sfn_of_str name = Some (e_name e) -> PrModes.dot_name (e_name e) = false ->
+  dir_blocks (s_disk s) v (d_cluster dd) = Some bl ->
+  find (t_matches (e_name e)) (live_in_blocks (s_disk s) bl) = Some (e_block e, e_offset e, sl0) ->
+  dir_home s v m bl [] -> (v_fat32 v = true -> ~ In (v_info v) bl) ->
+  is_directory (e_attr e) = false ->
+  is_read_only (e_attr e) && negb (mode_eqb md ReadOnly) = false ->
+  md = ReadOnly \/ md = ReadWriteAppend \/ md = ReadWriteCreateOrAppend ->
+  (forall g, In g (s_files s) -> f_id g <> h ->
+     ~ (f_vol g = vid /\ e_block (f_entry g) = e_block e /\ e_offset (f_entry g) = e_offset e)) ->
+  N.of_nat (length (s_files s)) <= s_maxf s ->
+  PrHandles.no_file (s_next_id s) s ->
+  exists s1 s2, run_op (CloseFile h) s = (Ok RUnit, s1) /\
+    run_op (OpenFile d name md) s1 = (Ok (RHandle (s_next_id s)), s2) /\
+    lc_inv fsz vid s2 ((s_next_id s, negb (mode_eqb md ReadOnly),
+                        (bytes, if appending md then N.of_nat (length bytes) else 0)) :: remove_member h m).
+Proof.
+  intros Hinv Hmem Hres Hdirty e Hdres Hdvol Hsfn Hdot Hbl Hfind Hdh Hinfobl Hnotdir Hro Hmd Huniq Hlim Hfresh.
+  destruct (C01_reopen_covered fsz vid s m h w bytes off fi f d di dd vi v name md bl sl0 Hinv Hmem Hres Hdirty
+              Hdres Hdvol Hsfn Hdot Hbl Hfind Hdh Hinfobl Hnotdir Hro Hmd Huniq Hlim Hfresh)
+    as (s1 & Hclose & Hnext & Hinv1 & Hcov).
+  destruct (C01_lifecycle_step fsz vid (LOpen d name md (s_next_id s1) (Some bytes)) s1 (remove_member h m) Hinv1
+              (conj eq_refl Hcov)) as (x & s2 & Hrun & Hstep).
+  cbn [lcop] in Hrun.
+  destruct Hcov as (di' & dd' & vi' & v' & sfn' & bl' & t' & ch' & G1 & G2 & G3 & G4 & G5 & G6 & G7 & G8 & G9 &
+                    G10 & G11 & G12 & G13 & G14 & G15 & G16 & G17).
+  destruct (C01_open_adds fsz vid s1 (remove_member h m) d di' dd' vi' v' name sfn' md bl' t' ch' Hinv1 G1 G2 G3 G4
+              G5 G6 G7 G8 G9 G10 G11 G12 G13 G14 G15 G16) as (s2' & Hrun' & _).
+  rewrite Hrun in Hrun'. injection Hrun' as -> <-.
+  exists s1, s2. split; [exact Hclose|]. rewrite <- Hnext. split; [exact Hrun|].
+  destruct (Hstep eq_refl) as (m1 & Ea & Hinv2). cbn [alstep] in Ea. injection Ea as <-.
+  unfold open_model in Hinv2.
+  replace (truncating md) with false in Hinv2 by (destruct Hmd as [-> | [-> | ->]]; reflexivity).
+  exact Hinv2.
+Qed.
+
+(* ================================================================== the hypotheses are satisfiable *)
+(* PrMulti's example: the FAT16 volume with two open files (handle 7: 1500 bytes in clusters
+   2 -> 3; handle 8: created empty), both with their directory slot in the root region
+   (block 22, no data block).  Both are written, 7 is flushed, 8 is closed, 7 is read on,
+   flushed again and closed. *)
+Definition exl_reps : list frep := [(0%nat, exr_file, [2; 3]); (1%nat, exm_file2, [])].
+Definition exl_ops : list lop :=
+  [LOp 8 (AWrite [10; 20; 30]); LOp 7 (AWrite [1; 2]); LFlush 7; LClose 8; LOp 7 (ASeekStart 698);
+   LOp 7 (ARead 6); LOp 7 ALen; LFlush 7; LOp 7 AEof; LClose 7].
+
+Lemma exl_block_home rs : blk_home exm_state exd_vol rs 22.
+Proof.
+  left. intros c Hc Hin. destruct (In_cluster_blocks _ _ _ Hin) as (k & _ & Ek).
+  unfold cluster_first_block, exd_vol in Ek. cbn [v_lba v_first_data v_spc] in Ek.
+  remember ((c - 2) * 2) as X. lia.
+Qed.
+
+Lemma exl_inv : lc_inv 1 0 exm_state exm_members.
+Proof.
+  exists 0%nat, exd_vol, exl_reps. split; [|reflexivity].
+  split; [|split; [|split; [|split]]].
+  - split; [|split].
+    + constructor; [|constructor; [|constructor]]; unfold member_rep; cbn [m_wr m_handle m_af r_chain fst snd].
+      * constructor; try reflexivity; try exact exm_alloc_pre; try exact exd_disk_wf;
+          try (vm_compute; discriminate).
+        -- repeat split; reflexivity.
+        -- left. split; [vm_compute; discriminate|].
+           split; [exists 5%nat; vm_compute; reflexivity|exists 0%nat; split; reflexivity].
+      * constructor; try reflexivity; try exact exm_alloc_pre; try exact exd_disk_wf;
+          try (vm_compute; discriminate).
+        -- repeat split; reflexivity.
+        -- right. split; [reflexivity|]. split; reflexivity.
+    + intros i j a b Hij Ha Hb.
+      destruct i as [|[|i]]; destruct j as [|[|j]]; cbn [nth_error exl_reps] in Ha, Hb;
+        try contradiction; try (destruct i; discriminate Ha); try (destruct j; discriminate Hb);
+        injection Ha as <-; injection Hb as <-; intros y Hy Hy'; cbn in Hy, Hy'; tauto.
+    + cbn. repeat constructor; cbn; intuition discriminate.
+  - constructor; [|constructor; [|constructor]]; (split; [|apply exl_block_home]);
+      cbn [fst snd]; (constructor; [split; reflexivity|split; reflexivity|reflexivity|
+                                    vm_compute; discriminate|apply exd_not_fat; vm_compute; discriminate]).
+  - split; [reflexivity|]. split; [exact exm_alloc_pre|]. split; [vm_compute; discriminate|].
+    split; [reflexivity|]. split; [exact exd_disk_wf|reflexivity].
+  - intros E. discriminate E.
+  - cbn. repeat constructor; cbn; intuition discriminate.
+Qed.
+
+Example lifecycle_example :
+  lc_inv 1 0 exm_state exm_members /\ lwf exl_ops (map m_handle exm_members) /\
+  (* the history, computed on both sides *)
+  fst (lrun exl_ops exm_state) = fst (alrun exl_ops exm_members) /\
+  fst (lrun exl_ops exm_state) =
+    [Ok RUnit; Ok RUnit; Ok RUnit; Ok RUnit; Ok RUnit; Ok (RBytes [0; 0; 1; 2; 0; 0]); Ok (RNum 1500);
+     Ok RUnit; Ok (RBool false); Ok RUnit] /\
+  existsb space_err (fst (lrun exl_ops exm_state)) = false /\
+  (* both handles are gone at the end, on both sides *)
+  s_files (snd (lrun exl_ops exm_state)) = [] /\ snd (alrun exl_ops exm_members) = [] /\
+  (* the invariant at the end, by the theorem *)
+  lc_inv 1 0 (snd (lrun exl_ops exm_state)) (snd (alrun exl_ops exm_members)).
+Proof.
+  assert (Hwf : lwf exl_ops (map m_handle exm_members)) by (cbn; intuition).
+  split; [exact exl_inv|]. split; [exact Hwf|].
+  split; [vm_compute; reflexivity|]. split; [vm_compute; reflexivity|].
+  split; [vm_compute; reflexivity|]. split; [vm_compute; reflexivity|].
+  split; [vm_compute; reflexivity|].
+  exact (proj2 (C01_lifecycle_history_closed 1 0 exl_ops exm_state exm_members exl_inv Hwf
+                  ltac:(vm_compute; reflexivity))).
+Qed.
